@@ -1,6 +1,10 @@
 (* C20: the model of txtorcon.addrmap simulates the reference semantics of Spec/C20.v.
-   Part A: the code's choice of the expiry argument agrees with the control-spec reading of the line.
-   Part B: the simulation invariant R and its preservation by every operation.
+   Part A: the code's choice of the expiry argument agrees with the control-spec reading of the line
+           (EXPIRES= form, all-positional "local" "utc" form, local-only form, NEVER).
+   Part B: the simulation invariant R and its preservation by every operation: the four shapes of
+           AddrMap.update (also as a nested feed from inside a callback), a listener's script, the
+           notify loop with active listeners, the loop of Clock.advance; that the reference state after
+           an advance does not depend on the order in which the due names expire (fold_exp_char).
    Part C: consequences (oracle satisfied; lookups; expiry moves both ways; NEVER persists). *)
 From Coq Require Import List Bool Ascii Arith NArith ZArith Lia.
 From TxVerif Require Import Lib.Bytes Spec.C20 Model.AddrMap.
@@ -90,6 +94,25 @@ Definition model_exp (ts : list tok) : option (option Z) :=
   | None => None
   end.
 
+Lemma split_pos_none rest0 rest : split_pos rest0 = (None, rest) -> rest0 = rest.
+Proof.
+  destruct rest0 as [|d r]; cbn [split_pos].
+  - intros E. injection E as <-. reflexivity.
+  - destruct (bare_time d); intros E; [discriminate|]. injection E as <-. reflexivity.
+Qed.
+
+Lemma split_pos_some rest0 rest g : split_pos rest0 = (Some g, rest) ->
+  exists d, rest0 = d :: rest /\ t_pre d = [] /\ t_time d = Some g.
+Proof.
+  destruct rest0 as [|d r]; cbn [split_pos]; [discriminate|].
+  destruct (bare_time d) as [g'|] eqn:B; intros E; [|discriminate]. injection E as -> ->.
+  exists d. split; [reflexivity|]. unfold bare_time in B.
+  destruct (t_pre d); [|discriminate]. destruct (t_time d); [|discriminate]. injection B as ->. auto.
+Qed.
+
+Lemma scan_f_bare acc d : t_pre d = [] -> scan_f acc d = acc.
+Proof. intros E. unfold scan_f. rewrite E. reflexivity. Qed.
+
 Lemma parse_agree ts v : parse_ev ts = Some v ->
   exists a b c rest,
     ts = a :: b :: c :: rest /\ is_word a = true /\ is_word b = true /\
@@ -99,7 +122,8 @@ Lemma parse_agree ts v : parse_ev ts = Some v ->
     model_exp ts = Some (exp_opt (v_exp v)).
 Proof.
   unfold parse_ev.
-  destruct ts as [|a [|b [|c rest]]]; try discriminate.
+  destruct ts as [|a [|b [|c rest0]]]; try discriminate.
+  destruct (split_pos rest0) as [pos rest] eqn:SP.
   destruct (plain_word a) eqn:Pa; cbn [andb]; [|discriminate].
   destruct (plain_word b) eqn:Pb; cbn [andb]; [|discriminate].
   destruct (forallb kw_ok rest) eqn:K; [|discriminate].
@@ -107,32 +131,49 @@ Proof.
   { unfold plain_word in Pa. apply andb_true_iff in Pa as [Pa _]. apply andb_true_iff in Pa as [Pa _]. exact Pa. }
   assert (Wb : is_word b = true).
   { unfold plain_word in Pb. apply andb_true_iff in Pb as [Pb _]. apply andb_true_iff in Pb as [Pb _]. exact Pb. }
+  assert (Scan0 : forall acc, fold_left scan_f rest0 acc = fold_left scan_f rest acc).
+  { intros acc. destruct pos as [g|].
+    - destruct (split_pos_some _ _ _ SP) as (d & -> & Pd & _). cbn [fold_left]. rewrite scan_f_bare by exact Pd. reflexivity.
+    - rewrite (split_pos_none _ _ SP). reflexivity. }
   assert (Scan : forall c', prefixb w_expires_lc (lower (t_pre c')) = false ->
-            scan_expires (a :: b :: c' :: rest) =
+            scan_expires (a :: b :: c' :: rest0) =
             match gmt_of rest with [] => None | l => Some {| t_pre := []; t_time := Some (last l 0%Z) |} end).
   { intros c' Pc. rewrite scan_expires_unfold. cbn [fold_left]. unfold scan_f at 2 3 4.
-    rewrite (plain_no_expires a Pa), (plain_no_expires b Pb), Pc. apply scan_rest. exact K. }
+    rewrite (plain_no_expires a Pa), (plain_no_expires b Pb), Pc. rewrite Scan0. apply scan_rest. exact K. }
   destruct (t_time c) as [l|] eqn:Tc.
   - destruct (t_pre c) as [|x p] eqn:Pc; [|discriminate].
     assert (Pc' : prefixb w_expires_lc (lower (t_pre c)) = false) by (rewrite Pc; reflexivity).
     specialize (Scan c Pc').
-    destruct (gmt_of rest) as [|g [|g2 l2]] eqn:G; [| |discriminate].
-    + destruct rest as [|d rest']; [|discriminate].
-      intros E. injection E as <-. cbn [v_name v_addr v_exp].
-      exists a, b, c, []. repeat split; try assumption; try reflexivity.
-      * unfold pick_expiry. rewrite Scan. eexists; reflexivity.
-      * unfold model_exp, pick_expiry. rewrite Scan.
-        unfold is_word. rewrite Tc. cbn [andb]. unfold strptime. rewrite Pc, Tc. reflexivity.
-    + intros E. injection E as <-. cbn [v_name v_addr v_exp].
-      exists a, b, c, rest. repeat split; try assumption; try reflexivity.
+    destruct (gmt_of rest) as [|g [|g2 l2]] eqn:G.
+    + destruct pos as [g|].
+      * (* all-positional form *)
+        destruct (split_pos_some _ _ _ SP) as (d & -> & Pd & Td).
+        intros E. injection E as <-. cbn [v_name v_addr v_exp].
+        assert (Pick : pick_expiry (a :: b :: c :: d :: rest) = Some d).
+        { unfold pick_expiry. rewrite Scan. unfold tok_text_is, is_word. rewrite Tc. reflexivity. }
+        exists a, b, c, (d :: rest). repeat split; try assumption; try reflexivity.
+        -- eexists; exact Pick.
+        -- unfold model_exp. rewrite Pick. unfold is_word, strptime. rewrite Td, Pd. reflexivity.
+      * rewrite (split_pos_none _ _ SP) in *.
+        destruct rest as [|d rest']; [|discriminate].
+        intros E. injection E as <-. cbn [v_name v_addr v_exp].
+        exists a, b, c, []. repeat split; try assumption; try reflexivity.
+        -- unfold pick_expiry. rewrite Scan. eexists; reflexivity.
+        -- unfold model_exp, pick_expiry. rewrite Scan.
+           unfold is_word. rewrite Tc. cbn [andb]. unfold strptime. rewrite Pc, Tc. reflexivity.
+    + intros E. assert (E' : Some {| v_name := t_pre a; v_addr := if beqb (t_pre b) w_ERROR then None else Some (t_pre b); v_exp := XAt g |} = Some v)
+        by (destruct pos; exact E). clear E. injection E' as <-. cbn [v_name v_addr v_exp].
+      exists a, b, c, rest0. repeat split; try assumption; try reflexivity.
       * unfold pick_expiry. rewrite Scan. eexists; reflexivity.
       * unfold model_exp, pick_expiry. rewrite Scan. cbn [last].
         unfold is_word, strptime. cbn [t_time t_pre andb]. reflexivity.
+    + destruct pos; discriminate.
   - destruct (beqb (t_pre c) w_NEVER) eqn:Nc; [|discriminate].
     apply beqb_eq in Nc.
     assert (Pc' : prefixb w_expires_lc (lower (t_pre c)) = false) by (rewrite Nc; vm_compute; reflexivity).
     specialize (Scan c Pc').
     destruct (gmt_of rest) as [|g l2] eqn:G; [|discriminate].
+    destruct pos as [g|]; [discriminate|]. rewrite (split_pos_none _ _ SP) in *.
     intros E. injection E as <-. cbn [v_name v_addr v_exp].
     assert (Pick : pick_expiry (a :: b :: c :: rest) = Some c).
     { unfold pick_expiry. rewrite Scan. destruct rest as [|d rest']; [reflexivity|].
@@ -294,42 +335,37 @@ Proof.
   intros H. rewrite (due_split nw cs), map_app in H. apply nodup_app_parts in H. apply H.
 Qed.
 
-(* ------------------------------------------------------------------------------------------ *)
-(* Part B2: Clock.advance in closed form *)
+(* how many pending calls are due *)
+Definition isdue (nw : Z) (c : Z * N) : bool := (fst c <=? nw)%Z.
+Definition duecnt (nw : Z) (cs : list (Z * N)) : nat := length (filter (isdue nw) cs).
 
-Definition nm (h : N -> option entry) (id : N) : bytes :=
-  match h id with Some e => e_name e | None => [] end.
-
-Lemma memN_cons v x l : memN v (x :: l) = (v =? x) || memN v l.
-Proof. reflexivity. Qed.
-
-Lemma fire_due_char cs : forall s s' es, fire_due s cs = (s', es) ->
-  (forall k, dict s' k = match dict s k with
-                         | Some v => if memN v (map snd (due_prefix (now s) cs)) then None else Some v
-                         | None => None
-                         end) /\
-  heap s' = heap s /\ calls s' = due_suffix (now s) cs /\ now s' = now s /\ nid s' = nid s /\
-  lst s' = lst s /\
-  es = flat_map (fun c => expired_block (lst s) (nm (heap s) (snd c))) (due_prefix (now s) cs).
+Lemma duecnt_insert nw c cs :
+  duecnt nw (insert_call c cs) = (duecnt nw cs + if isdue nw c then 1 else 0)%nat.
 Proof.
-  induction cs as [|c cs IH]; intros s s' es H; cbn [fire_due] in H.
-  - injection H as <- <-. cbn. repeat split. intros k. destruct (dict s k); reflexivity.
-  - cbn [due_prefix due_suffix]. destruct (fst c <=? now s)%Z eqn:E.
-    + unfold expire in H.
-      destruct (fire_due (set_dict (set_calls s cs) (ddel_val (snd c) (dict (set_calls s cs)))) cs) as [s2 e2] eqn:F.
-      injection H as <- <-.
-      apply IH in F. cbn [set_dict set_calls dict heap calls now nid lst] in F.
-      destruct F as (D & Hh & Hc & Hn & Hi & Hl & He).
-      repeat split; try assumption.
-      * intros k. rewrite D. unfold ddel_val. cbn [map].
-        destruct (dict s k) as [v|]; [|reflexivity]. rewrite memN_cons.
-        destruct (v =? snd c); reflexivity.
-      * cbn [flat_map]. rewrite He. reflexivity.
-    + injection H as <- <-. cbn. repeat split. intros k. destruct (dict s k); reflexivity.
+  unfold duecnt. induction cs as [|y cs IH]; cbn [insert_call].
+  - cbn [filter]. destruct (isdue nw c); reflexivity.
+  - destruct (fst y <=? fst c)%Z.
+    + cbn [filter]. destruct (isdue nw y); cbn [length]; rewrite IH; reflexivity.
+    + cbn [filter]. destruct (isdue nw c); destruct (isdue nw y); cbn [length]; lia.
+Qed.
+
+Lemma duecnt_cancel nw id cs : (duecnt nw (cancel_call id cs) <= duecnt nw cs)%nat.
+Proof.
+  unfold duecnt, cancel_call. induction cs as [|y cs IH]; [cbn; lia|].
+  cbn [filter]. destruct (negb (snd y =? id)); cbn [filter]; destruct (isdue nw y); cbn [length]; lia.
+Qed.
+
+Lemma cancel_head c rest : ~ In (snd c) (map snd rest) -> cancel_call (snd c) (c :: rest) = rest.
+Proof.
+  intros NI. unfold cancel_call. cbn [filter]. rewrite N.eqb_refl. cbn [negb].
+  induction rest as [|y r IH]; [reflexivity|]. cbn [filter].
+  assert (E : (snd y =? snd c) = false).
+  { apply N.eqb_neq. intros E. apply NI. left. exact E. }
+  rewrite E. cbn [negb]. f_equal. apply IH. intros H. apply NI. right. exact H.
 Qed.
 
 (* ------------------------------------------------------------------------------------------ *)
-(* Part B3: what AddrMap.update does to the state, in closed form *)
+(* Part B3: what AddrMap.update does to the state before its closing notify, in closed form *)
 
 Definition mk (m : mst) (d : bytes -> option N) (h : N -> option entry) (c : list (Z * N)) (i : N) : mst :=
   {| dict := d; heap := h; calls := c; now := now m; nid := i; lst := lst m |}.
@@ -352,49 +388,57 @@ Proof. unfold hset. rewrite N.eqb_refl. reflexivity. Qed.
 Lemma hset_other id e h i : i <> id -> hset id e h i = h i.
 Proof. unfold hset. intros H. destruct (id =? i) eqn:E; [apply N.eqb_eq in E; congruence|reflexivity]. Qed.
 
+Lemma duecnt_install m id x : (forall t, x = XAt t -> (now m < t)%Z) ->
+  (duecnt (now m) (install m id x) <= duecnt (now m) (calls m))%nat.
+Proof.
+  intros H. unfold install. destruct x as [|t]; [apply duecnt_cancel|].
+  rewrite duecnt_insert. unfold isdue. cbn [fst]. specialize (H t eq_refl).
+  assert (E : (Z.max (now m) t <=? now m)%Z = false) by lia. rewrite E.
+  pose proof (duecnt_cancel (now m) id (calls m)). lia.
+Qed.
+
 Lemma update_char m ts v : parse_ev ts = Some v ->
   let n := v_name v in
   let b := ev_key v in
-  update m ts =
+  update_core m ts =
   match dict m n, v_addr v with
   | Some id, None =>
       Some (mk m (ddel_val id (dict m))
                  (hset id {| e_name := n; e_ip := b; e_exp := old_exp m id |} (heap m))
                  (cancel_call id (calls m)) (nid m),
-            expired_block (lst m) n)
+            NExpired n)
   | Some id, Some a =>
       Some (mk m (dict m)
                  (hset id {| e_name := n; e_ip := a; e_exp := exp_opt (v_exp v) |} (heap m))
                  (install m id (v_exp v)) (nid m),
-            [])
-  | None, None => Some (m, [])
+            NoNote)
+  | None, None => Some (m, NoNote)
   | None, Some a =>
       Some (mk m (dset b (nid m) (dset n (nid m) (dict m)))
                  (hset (nid m) {| e_name := n; e_ip := a; e_exp := exp_opt (v_exp v) |} (hset (nid m) blank (heap m)))
                  (install m (nid m) (v_exp v)) (nid m + 1),
-            added_block (lst m) n a)
+            NAdded (nid m))
   end.
 Proof.
   intros P n b.
   destruct (parse_agree ts v P) as (ta & tb & tc & rest & -> & Wa & Wb & Na & Ad & (g & Pick) & ME).
   unfold model_exp in ME. rewrite Pick in ME.
-  unfold update. rewrite Wa, Wb. cbn [andb]. unfold dget. rewrite Na. fold n.
+  unfold update_core. rewrite Wa, Wb. cbn [andb]. unfold dget. rewrite Na. fold n.
   assert (Kb : b = t_pre tb).
   { unfold b, ev_key. rewrite Ad. destruct (beqb (t_pre tb) w_ERROR) eqn:E; [|reflexivity].
     apply beqb_eq in E. congruence. }
   destruct (dict m n) as [id|] eqn:D.
   - unfold addr_update. rewrite Pick, Wa, Wb. cbn [andb]. rewrite Na. fold n. rewrite <- Kb.
     rewrite Ad, <- Kb. destruct (beqb b w_ERROR) eqn:Eb.
-    + unfold expire, notify_expired, name_of, hget, set_dict, set_calls, set_heap, mk, old_exp, expired_block.
+    + unfold expire, name_of, hget, set_dict, set_calls, set_heap, mk, old_exp.
       cbn [dict heap calls now nid lst]. rewrite hset_same. cbn [e_name]. reflexivity.
     + rewrite ME. unfold set_calls, set_heap, mk, install, hget. cbn [dict heap calls now nid lst].
       destruct (v_exp v); reflexivity.
   - rewrite <- Kb. rewrite Ad. rewrite <- Kb. destruct (beqb b w_ERROR) eqn:Eb; [reflexivity|].
     unfold addr_update. rewrite Pick, Wa, Wb. cbn [andb]. rewrite Na. fold n. rewrite <- Kb.
     rewrite Eb. cbn [dict heap calls now nid lst].
-    + rewrite ME. unfold hget, set_calls, set_heap. cbn [dict heap calls now nid lst].
-      destruct (v_exp v) as [|t]; cbn [exp_opt]; cbn [dict heap calls now nid lst]; rewrite hset_same;
-        unfold notify_added, mk, install, added_block; cbn [dict heap calls now nid lst e_name e_ip app]; reflexivity.
+    rewrite ME. unfold hget, set_calls, set_heap. cbn [dict heap calls now nid lst].
+    destruct (v_exp v) as [|t]; cbn [exp_opt]; unfold mk, install; cbn [dict heap calls now nid lst]; reflexivity.
 Qed.
 
 (* ------------------------------------------------------------------------------------------ *)
@@ -413,8 +457,6 @@ Proof.
   - intros (x & H & E). apply N.eqb_eq in E. subst. exact H.
   - intros H. exists k. split; [exact H|apply N.eqb_refl].
 Qed.
-
-Definition names_add (n : bytes) (l : list bytes) : list bytes := if memB n l then l else l ++ [n].
 
 Lemma In_names_add x n l : In x (names_add n l) <-> x = n \/ In x l.
 Proof.
@@ -450,7 +492,7 @@ Section Sim.
                             (t = t0 \/ (t0 <= t /\ t <= now m))%Z;
     R_hascall : forall n v t0 id, In n NS -> s_map s n = Some v -> m_exp v = XAt t0 ->
                 dict m n = Some id -> exists t, In (t, id) (calls m);
-    R_lstnd : NoDup (s_lst s)
+    R_lstnd : NoDup (map fst (s_lst s))
   }.
 
   Lemma R_init : R m0 s0.
@@ -597,12 +639,12 @@ Section Sim.
   Qed.
 
   (* ---- an <error> mapping for a held name ---- *)
-  Lemma R_herr m s n id e :
-    R m s -> In n NS -> dict m n = Some id ->
-    R (mk m (ddel_val id (dict m)) (hset id e (heap m)) (cancel_call id (calls m)) (nid m))
+  Lemma R_herr m s n id h' :
+    R m s -> In n NS -> dict m n = Some id -> (forall i, i <> id -> h' i = heap m i) ->
+    R (mk m (ddel_val id (dict m)) h' (cancel_call id (calls m)) (nid m))
       {| s_now := s_now s; s_map := sdel n (s_map s); s_names := names_add n (s_names s); s_lst := s_lst s |}.
   Proof.
-    intros HR Hn D.
+    intros HR Hn D Hh'.
     assert (Del : forall k i, ddel_val id (dict m) k = Some i <-> dict m k = Some i /\ i <> id).
     { intros k i. unfold ddel_val. destruct (dict m k) as [v|]; [|split; [discriminate|intros [? _]; discriminate]].
       destruct (v =? id) eqn:E.
@@ -617,7 +659,7 @@ Section Sim.
         destruct (s_map s n') as [v'|].
         * destruct A as (id' & D' & Hh).
           assert (id' <> id) by (intros ->; apply E; eapply R_inj; eauto).
-          exists id'. split; [apply Del; auto|]. rewrite hset_other; auto.
+          exists id'. split; [apply Del; auto|]. rewrite Hh'; auto.
         * unfold ddel_val. rewrite A. reflexivity.
     - intros n' v'. unfold sdel. destruct (beqb n n'); [discriminate|].
       intros H. apply In_names_add. right. eapply R_held; eauto.
@@ -659,78 +701,738 @@ Section Sim.
   Qed.
 
   (* ---- add_listener ---- *)
-  Lemma R_addl m s l : R m s -> R (add_listener m l) (spec_step s (OAddL l)).
+  Lemma R_addl m s l b : R m s -> R (add_listener m l b) (spec_step s (OAddL l b)).
   Proof.
-    intros HR. unfold add_listener. cbn [spec_step].
+    intros HR. unfold add_listener, lids. cbn [spec_step]. unfold ids.
     constructor; cbn [dict heap calls now nid lst s_now s_map s_names s_lst]; try apply HR.
     - rewrite (R_lst _ _ HR). reflexivity.
-    - destruct (memN l (s_lst s)) eqn:E; [apply HR|].
-      assert (~ In l (s_lst s)) by (intros H; apply memN_In in H; congruence).
-      clear E. pose proof (R_lstnd _ _ HR) as ND. induction (s_lst s) as [|x ls IH]; cbn [app].
+    - destruct (memN l (map fst (s_lst s))) eqn:E; [apply HR|].
+      assert (NI : ~ In l (map fst (s_lst s))) by (intros H; apply memN_In in H; congruence).
+      clear E. pose proof (R_lstnd _ _ HR) as ND. rewrite map_app. cbn [map fst].
+      induction (map fst (s_lst s)) as [|x ls IH]; cbn [app].
       + constructor; [intros []|constructor].
       + inversion ND; subst. constructor.
-        * rewrite in_app_iff. cbn [In]. intros [A|[A|[]]]; [contradiction|]. subst. apply H. left. reflexivity.
-        * apply IH; auto. intros A. apply H. right. exact A.
+        * rewrite in_app_iff. cbn [In]. intros [A|[A|[]]]; [contradiction|]. subst. apply NI. left. reflexivity.
+        * apply IH; auto. intros A. apply NI. right. exact A.
   Qed.
 
-  (* ---- Clock.advance ---- *)
-  Definition bump (m : mst) (dt : N) : mst :=
-    {| dict := dict m; heap := heap m; calls := calls m; now := (now m + Z.of_N dt)%Z; nid := nid m; lst := lst m |}.
+  (* ---- a mapping fed from inside a callback ---- *)
+  Hypothesis NSplain : forall n, In n NS -> plain_bytes n = true.
 
-  Lemma fired_iff_due m s dt n v id :
-    R m s -> In n NS -> s_map s n = Some v -> dict m n = Some id ->
-    (In id (map snd (due_prefix (now m + Z.of_N dt) (calls m))) <-> due_exp (s_now s + Z.of_N dt) (m_exp v) = true).
+  Definition fx_ok (x : fexp) : bool := match x with FNever => true | FIn secs => 1 <=? secs end.
+
+  Lemma plain_bytes_word b : plain_bytes b = true -> plain_word (wtok b) = true.
+  Proof. unfold plain_bytes, plain_word, wtok, is_word. cbn [t_time t_pre andb]. auto. Qed.
+
+  Lemma parse_feed nw n ip x : plain_bytes n = true -> plain_bytes ip = true ->
+    parse_ev (feed_toks nw n ip x) = Some (feed_ev nw n ip x).
   Proof.
-    intros HR Hn Sm D. rewrite <- (R_now _ _ HR). split.
-    - intros H. apply in_map_iff in H as ([t i] & E & H). cbn in E. subst i.
-      apply In_due_prefix in H as [H L]. cbn [fst] in L.
-      destruct (R_call _ _ HR t id H) as (n' & v' & t0 & Hn' & D' & Sm' & Ex & Tm).
-      assert (n' = n) by (eapply R_inj; eauto). subst n'.
-      assert (v' = v) by congruence. subst v'. rewrite Ex. cbn [due_exp]. lia.
-    - intros Du. destruct (m_exp v) as [|t0] eqn:Ex; [discriminate|]. cbn [due_exp] in Du.
-      destruct (R_hascall _ _ HR n v t0 id Hn Sm Ex D) as (t & H).
-      destruct (R_call _ _ HR t id H) as (n' & v' & t0' & Hn' & D' & Sm' & Ex' & Tm).
-      assert (n' = n) by (eapply R_inj; eauto). subst n'.
-      assert (v' = v) by congruence. subst v'. assert (t0' = t0) by congruence. subst t0'.
-      apply in_map_iff. exists (t, id). split; [reflexivity|].
-      apply due_prefix_all; [apply HR|exact H|]. cbn [fst]. lia.
+    intros Pn Pi. apply plain_bytes_word in Pn, Pi.
+    destruct x as [|secs]; unfold feed_toks, parse_ev.
+    - cbn [split_pos]. rewrite Pn, Pi. reflexivity.
+    - cbn [split_pos bare_time t_pre t_time]. unfold w_EXPIRES at 1, str at 1. cbn [map].
+      rewrite Pn, Pi. reflexivity.
   Qed.
 
-  Lemma flat_map_nil_blocks {A} (f : A -> bytes) (l : list A) :
-    flat_map (fun c => expired_block [] (f c)) l = [].
-  Proof. induction l; [reflexivity|]. cbn. exact IHl. Qed.
-
-  Lemma flat_map_map {A B C} (g : A -> B) (f : B -> list C) l : flat_map f (map g l) = flat_map (fun x => f (g x)) l.
-  Proof. induction l; [reflexivity|]. cbn. now rewrite IHl. Qed.
-
-  Lemma expired_names_app l0 a b : expired_names l0 (a ++ b) = expired_names l0 a ++ expired_names l0 b.
-  Proof. unfold expired_names. apply flat_map_app. Qed.
-
-  Lemma expired_names_tail l0 n ls : ~ In l0 ls -> expired_names l0 (map (fun l => EExpired l n) ls) = [].
+  Lemma fexp_fresh nw x t : fx_ok x = true -> fexp_to nw x = XAt t -> (nw < t)%Z.
   Proof.
-    induction ls as [|x ls IH]; intros H; [reflexivity|]. cbn [map]. unfold expired_names. cbn [flat_map].
-    assert (x =? l0 = false) as -> by (apply N.eqb_neq; intros ->; apply H; left; reflexivity).
-    cbn [app]. apply IH. intros A. apply H. right. exact A.
+    destruct x as [|secs]; unfold fx_ok, fexp_to; [discriminate|].
+    intros L E. assert (Et : t = (8 * (nw / 8 + Z.of_N secs))%Z) by congruence. clear E. subst t.
+    apply N.leb_le in L.
+    pose proof (Z.div_mod nw 8 ltac:(lia)). pose proof (Z.mod_pos_bound nw 8 ltac:(lia)). lia.
   Qed.
 
-  Lemma expired_names_blocks l0 ls names : ~ In l0 ls ->
-    expired_names l0 (flat_map (expired_block (l0 :: ls)) names) = names.
+  Lemma feed_key nw n ip x : ev_key (feed_ev nw n ip x) = ip.
   Proof.
-    intros H. induction names as [|n names IH]; [reflexivity|].
-    cbn [flat_map]. rewrite expired_names_app, IH. unfold expired_block at 1. cbn [map].
-    change (EExpired l0 n :: map (fun l => EExpired l n) ls) with ([EExpired l0 n] ++ map (fun l => EExpired l n) ls).
-    rewrite expired_names_app, expired_names_tail by exact H.
-    unfold expired_names. cbn [flat_map]. rewrite N.eqb_refl. reflexivity.
+    unfold ev_key, feed_ev. cbn [v_addr]. destruct (beqb ip w_ERROR) eqn:E; [|reflexivity].
+    apply beqb_eq in E. auto.
   Qed.
+
+  Lemma feed_sim m s n ip x :
+    R m s -> In n NS -> ~ In ip NS -> plain_bytes ip = true -> fx_ok x = true ->
+    exists m' nt, update_core m (feed_toks (now m) n ip x) = Some (m', nt) /\
+      R m' (ev_step s (feed_ev (s_now s) n ip x)) /\
+      passive m' nt = feed_expect s (feed_ev (s_now s) n ip x) /\
+      now m' = now m /\ lst m' = lst m /\ (duecnt (now m) (calls m') <= duecnt (now m) (calls m))%nat.
+  Proof.
+    intros HR Hn Hb Pi Fx.
+    replace (feed_toks (now m) n ip x) with (feed_toks (s_now s) n ip x) by (rewrite (R_now _ _ HR); reflexivity).
+    set (v := feed_ev (s_now s) n ip x).
+    assert (P : parse_ev (feed_toks (s_now s) n ip x) = Some v) by (apply parse_feed; auto).
+    assert (Kv : ev_key v = ip) by apply feed_key.
+    assert (Nv : v_name v = n) by reflexivity.
+    assert (Fr : forall t, v_exp v = XAt t -> (now m < t)%Z).
+    { intros t E. rewrite (R_now _ _ HR). eapply fexp_fresh; eauto. }
+    assert (Li : lids m = ids s) by (unfold lids, ids; rewrite (R_lst _ _ HR); reflexivity).
+    rewrite (update_char m _ v P). cbn zeta. rewrite Nv.
+    unfold feed_expect, ev_kind, ev_step. rewrite Nv.
+    destruct (dict m n) as [id|] eqn:D; destruct (v_addr v) as [a|] eqn:Ad.
+    - destruct (R_dict_held _ _ _ HR Hn id D) as (v0 & Sm & _). rewrite Sm.
+      eexists _, _. split; [reflexivity|]. split; [apply R_upd; assumption|].
+      split; [reflexivity|]. split; [reflexivity|]. split; [reflexivity|].
+      cbn [mk calls]. apply duecnt_install. exact Fr.
+    - destruct (R_dict_held _ _ _ HR Hn id D) as (v0 & Sm & _). rewrite Sm.
+      eexists _, _. split; [reflexivity|].
+      split; [apply R_herr; try assumption; intros i Hi; apply hset_other; exact Hi|].
+      split; [unfold passive, mk, lids; cbn [lst]; fold (lids m); rewrite Li; reflexivity|].
+      split; [reflexivity|]. split; [reflexivity|]. cbn [mk calls]. apply duecnt_cancel.
+    - assert (Sm : s_map s n = None).
+      { pose proof (R_name _ _ HR _ Hn) as A. destruct (s_map s n); [|reflexivity].
+        destruct A as (? & A & _). congruence. }
+      rewrite Sm. rewrite Kv.
+      assert (Ea : a = ip).
+      { unfold ev_key in Kv. rewrite Ad in Kv. exact Kv. } subst a.
+      eexists _, _. split; [reflexivity|]. split; [apply R_new; assumption|].
+      split.
+      { unfold passive, mk, lids, name_of, ip_of, hget. cbn [lst heap]. rewrite hset_same. cbn [e_name e_ip].
+        fold (lids m). rewrite Li. reflexivity. }
+      split; [reflexivity|]. split; [reflexivity|]. cbn [mk calls]. apply duecnt_install. exact Fr.
+    - assert (Sm : s_map s n = None).
+      { pose proof (R_name _ _ HR _ Hn) as A. destruct (s_map s n); [|reflexivity].
+        destruct A as (? & A & _). congruence. }
+      rewrite Sm.
+      eexists _, _. split; [reflexivity|]. split; [apply R_nerr; assumption|].
+      split; [reflexivity|]. split; [reflexivity|]. split; [reflexivity|]. lia.
+  Qed.
+
+  (* ---- small facts about observations ---- *)
+  Lemma oz_eqb_refl e : oz_eqb e e = true.
+  Proof. destruct e as [z|]; cbn; [apply Z.eqb_refl|reflexivity]. Qed.
 
   Lemma obs_eqb_refl e : obs_eqb e e = true.
   Proof.
-    destruct e; cbn; rewrite ?beqb_refl, ?N.eqb_refl; try reflexivity.
-    destruct e as [z|]; cbn; [apply Z.eqb_refl|reflexivity].
+    induction e; cbn [obs_eqb]; rewrite ?beqb_refl, ?N.eqb_refl, ?oz_eqb_refl; try reflexivity. exact IHe.
   Qed.
 
   Lemma chunk_eqb_refl es : chunk_eqb es es = true.
   Proof. induction es as [|e es IH]; [reflexivity|]. cbn. rewrite obs_eqb_refl. exact IH. Qed.
+
+  Lemma strip_app p r : strip p (p ++ r) = Some r.
+  Proof. induction p as [|x p IH]; [reflexivity|]. cbn [app strip]. rewrite obs_eqb_refl. exact IH. Qed.
+
+  Lemma existsb_false {A} (f : A -> bool) l : existsb f l = false -> forall x, In x l -> f x = false.
+  Proof.
+    intros H x Hx. destruct (f x) eqn:E; [|reflexivity].
+    assert (existsb f l = true) by (apply existsb_exists; eauto). congruence.
+  Qed.
+
+  Lemma existsb_false_intro {A} (f : A -> bool) l : (forall x, In x l -> f x = false) -> existsb f l = false.
+  Proof.
+    induction l as [|y l IH]; intros H; [reflexivity|]. cbn [existsb].
+    rewrite (H y (or_introl eq_refl)). apply IH. intros x Hx. apply H. right. exact Hx.
+  Qed.
+
+  Lemma expired_names_app l0 a b : expired_names l0 (a ++ b) = expired_names l0 a ++ expired_names l0 b.
+  Proof. unfold expired_names. apply flat_map_app. Qed.
+
+  Lemma expired_names_sub l0 es : expired_names l0 (map ESub es) = [].
+  Proof. induction es as [|e es IH]; [reflexivity|]. cbn [map]. unfold expired_names in *. cbn [flat_map]. exact IH. Qed.
+
+  (* ---- a lookup, by the caller or from inside a callback ---- *)
+  Lemma find_sim m s k : R m s -> any_due s = false -> exists e, find m k = [e] /\ find_ok s k e = true.
+  Proof.
+    intros HR St. unfold any_due in St.
+    assert (Nd : forall n v, s_map s n = Some v -> due_exp (s_now s) (m_exp v) = false).
+    { intros n v Sm. pose proof (existsb_false _ _ St n (R_held _ _ HR n v Sm)) as A.
+      unfold due_in in A. rewrite Sm in A. exact A. }
+    unfold find_ok, find, dget, hget.
+    destruct (memB k (s_names s)) eqn:Mk.
+    - apply memB_In in Mk. assert (Hk : In k NS) by (eapply R_names; eauto).
+      pose proof (R_name _ _ HR k Hk) as A. unfold live.
+      destruct (s_map s k) as [v|] eqn:Sm.
+      + destruct A as (id & D & Hh). rewrite D, Hh, (Nd k v Sm). unfold entry_of. cbn [e_name e_ip e_exp].
+        eexists. split; [reflexivity|]. apply obs_eqb_refl.
+      + rewrite A. eexists. split; reflexivity.
+    - destruct (dict m k) as [id|] eqn:D; [|eexists; split; reflexivity].
+      destruct (memB k NS) eqn:Mn.
+      + apply memB_In in Mn. destruct (R_dict_held _ _ _ HR Mn id D) as (v & Sm & _).
+        apply (R_held _ _ HR) in Sm. apply memB_In in Sm. congruence.
+      + assert (Hk : ~ In k NS) by (intros A; apply memB_In in A; congruence).
+        destruct (R_addr _ _ HR k id D Hk) as (n & Hn & Dn).
+        destruct (R_dict_held _ _ _ HR Hn id Dn) as (v & Sm & Hh).
+        rewrite Hh. unfold entry_of. cbn [e_name e_ip e_exp]. eexists. split; [reflexivity|].
+        unfold live. rewrite Sm, (Nd n v Sm). rewrite beqb_refl, oz_eqb_refl. reflexivity.
+  Qed.
+
+  (* a mapping fed from inside a callback is never due at once *)
+  Lemma any_due_feed s n ip x : any_due s = false -> fx_ok x = true ->
+    any_due (ev_step s (feed_ev (s_now s) n ip x)) = false.
+  Proof.
+    intros St Fx. unfold any_due in *. apply existsb_false_intro. intros k Hk.
+    unfold ev_step in *. cbn [s_now s_map s_names v_name v_addr v_exp feed_ev] in *.
+    apply In_names_add in Hk. unfold due_in.
+    destruct (beqb n k) eqn:E.
+    - destruct (beqb ip w_ERROR); unfold sset, sdel; rewrite E; [reflexivity|]. cbn [m_exp].
+      destruct (fexp_to (s_now s) x) as [|t] eqn:Fe; [reflexivity|]. cbn [due_exp].
+      pose proof (fexp_fresh _ _ _ Fx Fe). lia.
+    - assert (Hk' : In k (s_names s)).
+      { destruct Hk as [->|Hk]; [rewrite beqb_refl in E; discriminate|exact Hk]. }
+      pose proof (existsb_false _ _ St k Hk') as A. unfold due_in in A.
+      destruct (beqb ip w_ERROR); unfold sset, sdel; rewrite E; exact A.
+  Qed.
+
+  (* ---- a listener's script ---- *)
+  Lemma script_sim feeds acts : forall m s n,
+    R m s -> In n NS -> forallb (act_ok feeds) acts = true ->
+    (forall ip, In ip (feed_keys acts) -> ~ In ip NS) ->
+    exists m' es, run_script m n acts = Some (m', es, existsb is_raise acts) /\
+      R m' (script_step s n acts) /\ now m' = now m /\ lst m' = lst m /\
+      (duecnt (now m) (calls m') <= duecnt (now m) (calls m))%nat /\
+      (feeds = false -> m' = m) /\
+      (forall l0, expired_names l0 es = []) /\
+      (any_due s = false -> any_due (script_step s n acts) = false) /\
+      ((existsb is_lookup acts = false \/ any_due s = false) ->
+       forall rest, script_ok s n acts (es ++ rest) = Some rest).
+  Proof.
+    induction acts as [|a r IH]; intros m s n HR Hn Ok Keys.
+    - exists m, []. cbn [run_script existsb script_step script_ok app].
+      split; [reflexivity|]. split; [exact HR|]. split; [reflexivity|]. split; [reflexivity|]. split; [lia|].
+      split; [reflexivity|]. split; [reflexivity|]. split; [auto|]. intros _ rest. reflexivity.
+    - cbn [forallb] in Ok. apply andb_true_iff in Ok as [Oa Ok].
+      assert (Keys' : forall ip, In ip (feed_keys r) -> ~ In ip NS).
+      { intros ip H. apply Keys. unfold feed_keys in *. cbn [flat_map]. apply in_or_app. right. exact H. }
+      destruct a as [|k|ip x|].
+      + (* find(name) *)
+        destruct (IH m s n HR Hn Ok Keys') as (m' & es & Rn & HR' & Nw & Ls & Dc & Fd & En & Ad & Sk).
+        exists m', (map ESub (find m n) ++ es). cbn [run_script]. rewrite Rn. cbn [existsb is_raise orb].
+        split; [reflexivity|]. split; [exact HR'|]. split; [exact Nw|]. split; [exact Ls|]. split; [exact Dc|].
+        split; [exact Fd|]. split; [intros l0; rewrite expired_names_app, expired_names_sub, En; reflexivity|].
+        split; [exact Ad|]. intros [H|H]; [cbn in H; discriminate|]. intros rest.
+        destruct (find_sim m s n HR H) as (e & Fe & Fo). rewrite Fe. cbn [map app script_ok]. rewrite Fo.
+        apply Sk. right. exact H.
+      + (* find(k) *)
+        destruct (IH m s n HR Hn Ok Keys') as (m' & es & Rn & HR' & Nw & Ls & Dc & Fd & En & Ad & Sk).
+        exists m', (map ESub (find m k) ++ es). cbn [run_script]. rewrite Rn. cbn [existsb is_raise orb].
+        split; [reflexivity|]. split; [exact HR'|]. split; [exact Nw|]. split; [exact Ls|]. split; [exact Dc|].
+        split; [exact Fd|]. split; [intros l0; rewrite expired_names_app, expired_names_sub, En; reflexivity|].
+        split; [exact Ad|]. intros [H|H]; [cbn in H; discriminate|]. intros rest.
+        destruct (find_sim m s k HR H) as (e & Fe & Fo). rewrite Fe. cbn [map app script_ok]. rewrite Fo.
+        apply Sk. right. exact H.
+      + (* a newer mapping is fed *)
+        unfold act_ok in Oa. apply andb_true_iff in Oa as [Oa Fx]. apply andb_true_iff in Oa as [Ff Pi].
+        assert (Hb : ~ In ip NS) by (apply Keys; unfold feed_keys; cbn [flat_map]; left; reflexivity).
+        destruct (feed_sim m s n ip x HR Hn Hb Pi Fx) as (m1 & nt & Up & HR1 & Pa & Nw1 & Ls1 & Dc1).
+        destruct (IH m1 _ n HR1 Hn Ok Keys') as (m' & es & Rn & HR' & Nw & Ls & Dc & Fd & En & Ad & Sk).
+        exists m', (passive m1 nt ++ es). cbn [run_script]. rewrite Up, Rn. cbn [existsb is_raise orb].
+        split; [reflexivity|]. split; [exact HR'|]. split; [congruence|]. split; [congruence|].
+        split; [rewrite Nw1 in Dc; lia|]. split; [intros F; congruence|].
+        split.
+        { intros l0. rewrite expired_names_app, En, app_nil_r.
+          destruct nt; unfold passive; [reflexivity|apply expired_names_sub|apply expired_names_sub]. }
+        split; [intros H; apply Ad; apply any_due_feed; assumption|].
+        intros H rest. cbn [script_ok]. rewrite Pa, <- app_assoc, strip_app. apply Sk.
+        destruct H as [H|H]; [left; exact H|right; apply any_due_feed; assumption].
+      + (* raise *)
+        exists m, [ESub ERaised]. cbn [run_script existsb is_raise orb script_step script_ok app].
+        split; [reflexivity|]. split; [exact HR|]. split; [reflexivity|]. split; [reflexivity|]. split; [lia|].
+        split; [reflexivity|]. split; [reflexivity|]. split; [auto|]. intros _ rest. reflexivity.
+  Qed.
+
+  (* ---- AddrMap.notify with active listeners ---- *)
+  Definition Lok (ls : list (N * beh)) : Prop :=
+    forall lb, In lb ls -> beh_ok (snd lb) = true /\ (forall ip, In ip (beh_keys (snd lb)) -> ~ In ip NS).
+
+  Definition kfeeds (k : kind) : bool := match k with KAdded => false | KExpired => true end.
+
+  Lemma Lok_script k lb ls : Lok ls -> In lb ls ->
+    forallb (act_ok (kfeeds k)) (script_of k (snd lb)) = true /\
+    (forall ip, In ip (feed_keys (script_of k (snd lb))) -> ~ In ip NS).
+  Proof.
+    intros L H. destruct (L lb H) as [Ok Keys]. unfold beh_ok in Ok. apply andb_true_iff in Ok as [Oa Oe].
+    destruct k; cbn [script_of kfeeds]; (split; [assumption|]); intros ip Hi; apply Keys; unfold beh_keys;
+      apply in_or_app; [left|right]; exact Hi.
+  Qed.
+
+  Definition nt_for (k : kind) (m : mst) (n ip : bytes) (nt : note) : Prop :=
+    match k with
+    | KExpired => nt = NExpired n
+    | KAdded => exists id, nt = NAdded id /\ name_of m id = n /\ ip_of m id = ip
+    end.
+
+  Lemma call_of_for k m n ip nt l : nt_for k m n ip nt -> call_of m nt l = Some (head_of k l n ip, n, k).
+  Proof.
+    destruct k; cbn [nt_for].
+    - intros (id & -> & <- & <-). reflexivity.
+    - intros ->. reflexivity.
+  Qed.
+
+  Definition heard (n : bytes) (l0 : N) (ls : list (N * beh)) : list bytes :=
+    flat_map (fun lb : N * beh => if N.eqb (fst lb) l0 then [n] else []) ls.
+
+  Lemma expired_names_head k l n ip l0 :
+    expired_names l0 [head_of k l n ip] = match k with KExpired => if N.eqb l l0 then [n] else [] | KAdded => [] end.
+  Proof. destruct k; unfold expired_names; cbn [head_of flat_map]; [reflexivity|]. rewrite app_nil_r. reflexivity. Qed.
+
+  Lemma notify_sim k ls : forall m s n ip nt,
+    R m s -> In n NS -> Lok ls -> nt_for k m n ip nt ->
+    exists m' es, notify_top ls m nt = Some (m', es) /\
+      R m' (note_fold k ls s n) /\ now m' = now m /\ lst m' = lst m /\
+      (duecnt (now m) (calls m') <= duecnt (now m) (calls m))%nat /\
+      (any_due s = false -> any_due (note_fold k ls s n) = false) /\
+      (k = KExpired -> forall l0, expired_names l0 es = heard n l0 ls) /\
+      (((forall lb, In lb ls -> existsb is_lookup (script_of k (snd lb)) = false) \/ any_due s = false) ->
+       forall rest, notify_ok k ls s n ip (es ++ rest) = Some rest).
+  Proof.
+    induction ls as [|lb r IH]; intros m s n ip nt HR Hn L NT.
+    - exists m, []. cbn [notify_top note_fold]. split; [reflexivity|]. split; [exact HR|].
+      split; [reflexivity|]. split; [reflexivity|]. split; [lia|]. split; [auto|].
+      split; [intros _ l0; reflexivity|]. intros _ rest. reflexivity.
+    - assert (L' : Lok r) by (intros x Hx; apply L; right; exact Hx).
+      destruct (Lok_script k lb (lb :: r) L (or_introl eq_refl)) as [Ok Keys].
+      destruct (script_sim (kfeeds k) (script_of k (snd lb)) m s n HR Hn Ok Keys)
+        as (m1 & es1 & Rn & HR1 & Nw1 & Ls1 & Dc1 & Fd & En & Ad & Sk).
+      cbn [notify_top note_fold]. rewrite (call_of_for k m n ip nt (fst lb) NT), Rn.
+      assert (NT1 : nt_for k m1 n ip nt).
+      { destruct k; [rewrite (Fd eq_refl); exact NT|exact NT]. }
+      destruct (IH m1 _ n ip nt HR1 Hn L' NT1) as (m2 & es2 & Nt & HR2 & Nw2 & Ls2 & Dc2 & Ad2 & En2 & Ok2).
+      rewrite Nt. exists m2, (head_of k (fst lb) n ip :: es1 ++ es2). split; [reflexivity|]. split; [exact HR2|].
+      split; [congruence|]. split; [congruence|]. split; [rewrite Nw1 in Dc2; lia|].
+      split; [intros H; apply Ad2, Ad, H|]. split.
+      * intros -> l0.
+        change (head_of KExpired (fst lb) n ip :: es1 ++ es2) with ([head_of KExpired (fst lb) n ip] ++ es1 ++ es2).
+        rewrite !expired_names_app, En, expired_names_head, (En2 eq_refl). unfold heard. cbn [flat_map app]. reflexivity.
+      * intros H rest. cbn [app notify_ok]. rewrite obs_eqb_refl. rewrite <- app_assoc.
+        rewrite Sk.
+        -- apply Ok2. destruct H as [H|H]; [left; intros x Hx; apply H; right; exact Hx|right; apply Ad; exact H].
+        -- destruct H as [H|H]; [left; apply H; left; reflexivity|right; exact H].
+  Qed.
+
+  (* ---- one ADDRMAP line from Tor ---- *)
+  Lemma notify_none ls m : notify_top ls m NoNote = Some (m, []).
+  Proof. destruct ls; reflexivity. Qed.
+
+  Lemma lookup_split k (ls : list (N * beh)) d :
+    existsb (fun lb => existsb is_lookup (script_of k (snd lb))) ls && d = false ->
+    (forall lb, In lb ls -> existsb is_lookup (script_of k (snd lb)) = false) \/ d = false.
+  Proof.
+    intros H. apply andb_false_iff in H as [H|H]; [left|right; exact H].
+    intros lb Hl. exact (existsb_false _ _ H lb Hl).
+  Qed.
+
+  Lemma ev_sim m s ts v :
+    R m s -> Lok (lst m) -> parse_ev ts = Some v -> In (v_name v) NS -> ~ In (ev_key v) NS ->
+    exists m' es, update m ts = Some (m', es) /\ R m' (spec_step s (OEv ts)) /\ lst m' = lst m /\
+      (stale_lookup_op s (OEv ts) = false -> chunk_ok s (OEv ts) es = true).
+  Proof.
+    intros HR L P Hn Hb. unfold update. rewrite (update_char m ts v P). cbn zeta.
+    cbn [spec_step chunk_ok stale_lookup_op]. rewrite P.
+    assert (Ls : s_lst s = lst m) by (symmetry; apply HR).
+    unfold ev_key in *. unfold ev_kind.
+    destruct (dict m (v_name v)) as [id|] eqn:D; destruct (v_addr v) as [a|] eqn:Ad.
+    - destruct (R_dict_held _ _ _ HR Hn id D) as (v0 & Sm & _). rewrite Sm.
+      rewrite notify_none. eexists _, _. split; [reflexivity|].
+      split; [unfold ev_step; rewrite Ad; apply R_upd; assumption|]. split; [reflexivity|]. reflexivity.
+    - destruct (R_dict_held _ _ _ HR Hn id D) as (v0 & Sm & _). rewrite Sm.
+      set (m1 := mk m _ _ _ _). set (s1 := ev_step s v).
+      assert (HR1 : R m1 s1).
+      { unfold m1, s1, ev_step. rewrite Ad. apply R_herr; try assumption. intros i Hi. apply hset_other. exact Hi. }
+      destruct (notify_sim KExpired (lst m1) m1 s1 (v_name v) [] (NExpired (v_name v)) HR1 Hn L eq_refl)
+        as (m' & es & Nt & HR' & _ & Ls' & _ & _ & _ & Ok).
+      exists m', es. split; [exact Nt|]. unfold note_step. change (s_lst s1) with (s_lst s). rewrite Ls.
+      split; [exact HR'|]. split; [exact Ls'|].
+      intros Sl. unfold lst_lookup in Sl. rewrite Ls in Sl.
+      specialize (Ok (lookup_split _ _ _ Sl) []).
+      rewrite app_nil_r in Ok. change (lst m1) with (lst m) in Ok. rewrite Ok. reflexivity.
+    - assert (Sm : s_map s (v_name v) = None).
+      { pose proof (R_name _ _ HR _ Hn) as A. destruct (s_map s (v_name v)); [|reflexivity].
+        destruct A as (? & A & _). congruence. }
+      rewrite Sm.
+      set (m1 := mk m _ _ _ _). set (s1 := ev_step s v).
+      assert (HR1 : R m1 s1).
+      { unfold m1, s1, ev_step. rewrite Ad. apply R_new; assumption. }
+      assert (NT : nt_for KAdded m1 (v_name v) a (NAdded (nid m))).
+      { exists (nid m). split; [reflexivity|]. unfold m1, mk, name_of, ip_of, hget. cbn [heap].
+        rewrite hset_same. split; reflexivity. }
+      destruct (notify_sim KAdded (lst m1) m1 s1 (v_name v) a _ HR1 Hn L NT)
+        as (m' & es & Nt & HR' & _ & Ls' & _ & _ & _ & Ok).
+      exists m', es. split; [exact Nt|]. unfold note_step. change (s_lst s1) with (s_lst s). rewrite Ls.
+      split; [exact HR'|]. split; [exact Ls'|].
+      intros Sl. unfold lst_lookup in Sl. rewrite Ls in Sl.
+      specialize (Ok (lookup_split _ _ _ Sl) []).
+      rewrite app_nil_r in Ok. change (lst m1) with (lst m) in Ok. rewrite Ok. reflexivity.
+    - assert (Sm : s_map s (v_name v) = None).
+      { pose proof (R_name _ _ HR _ Hn) as A. destruct (s_map s (v_name v)); [|reflexivity].
+        destruct A as (? & A & _). congruence. }
+      rewrite Sm. rewrite notify_none. eexists _, _. split; [reflexivity|].
+      split; [unfold ev_step; rewrite Ad; apply R_nerr; assumption|]. split; [reflexivity|]. reflexivity.
+  Qed.
+
+  (* ---- the reference: what one name's expiry does touches that name's slot only ---- *)
+  Definition slot_fresh (nw : Z) (o : option mp) : Prop :=
+    match o with Some v => due_exp nw (m_exp v) = false | None => True end.
+
+  Lemma names_add_in n l : In n l -> names_add n l = l.
+  Proof. intros H. unfold names_add. apply memB_In in H. rewrite H. reflexivity. Qed.
+
+  Lemma act_step_frame s n a :
+    s_now (act_step s n a) = s_now s /\ s_lst (act_step s n a) = s_lst s /\
+    (forall k, k <> n -> s_map (act_step s n a) k = s_map s k) /\
+    (In n (s_names s) -> s_names (act_step s n a) = s_names s).
+  Proof.
+    destruct a as [|k0|ip x|]; cbn [act_step]; try (repeat split; reflexivity).
+    unfold ev_step, feed_ev. cbn [s_now s_lst s_map s_names v_name v_addr v_exp].
+    split; [reflexivity|]. split; [reflexivity|]. split.
+    - intros k Hk. destruct (beqb ip w_ERROR); unfold sset, sdel; rewrite (beqb_neq_false n k); auto.
+    - apply names_add_in.
+  Qed.
+
+  Lemma act_step_slot s s' n a : s_now s = s_now s' -> s_map s n = s_map s' n ->
+    s_map (act_step s n a) n = s_map (act_step s' n a) n.
+  Proof.
+    intros Nw Sl. destruct a as [|k0|ip x|]; cbn [act_step]; try exact Sl.
+    unfold ev_step, feed_ev. cbn [s_map v_name v_addr v_exp]. rewrite Nw.
+    destruct (beqb ip w_ERROR); unfold sset, sdel; rewrite beqb_refl; reflexivity.
+  Qed.
+
+  Lemma act_step_fresh s n a : act_ok true a = true -> slot_fresh (s_now s) (s_map s n) ->
+    slot_fresh (s_now s) (s_map (act_step s n a) n).
+  Proof.
+    intros Ok Fr. destruct a as [|k0|ip x|]; cbn [act_step]; try exact Fr.
+    unfold act_ok in Ok. apply andb_true_iff in Ok as [_ Fx].
+    unfold ev_step, feed_ev. cbn [s_map v_name v_addr v_exp].
+    destruct (beqb ip w_ERROR); unfold sset, sdel; rewrite beqb_refl; cbn [slot_fresh m_exp]; [exact I|].
+    destruct (fexp_to (s_now s) x) as [|t] eqn:Fe; [reflexivity|]. cbn [due_exp].
+    pose proof (fexp_fresh _ _ _ Fx Fe). lia.
+  Qed.
+
+  Lemma script_step_frame acts : forall s n,
+    s_now (script_step s n acts) = s_now s /\ s_lst (script_step s n acts) = s_lst s /\
+    (forall k, k <> n -> s_map (script_step s n acts) k = s_map s k) /\
+    (In n (s_names s) -> s_names (script_step s n acts) = s_names s).
+  Proof.
+    induction acts as [|a r IH]; intros s n; [repeat split; reflexivity|].
+    destruct (act_step_frame s n a) as (A1 & A2 & A3 & A4).
+    destruct (IH (act_step s n a) n) as (B1 & B2 & B3 & B4).
+    assert (E : script_step s n (a :: r) = match a with ARaise => s | _ => script_step (act_step s n a) n r end)
+      by (destruct a; reflexivity).
+    rewrite E. destruct a; try (repeat split; reflexivity);
+      (split; [congruence|]; split; [congruence|]; split;
+       [intros k' Hk; rewrite B3, A3; auto|intros H; rewrite B4, A4; auto; rewrite A4; auto]).
+  Qed.
+
+  Lemma script_step_slot acts : forall s s' n, s_now s = s_now s' -> s_map s n = s_map s' n ->
+    s_map (script_step s n acts) n = s_map (script_step s' n acts) n.
+  Proof.
+    induction acts as [|a r IH]; intros s s' n Nw Sl; [exact Sl|].
+    destruct (act_step_frame s n a) as (A1 & _). destruct (act_step_frame s' n a) as (A1' & _).
+    pose proof (act_step_slot s s' n a Nw Sl) as Sl'.
+    destruct a; cbn [script_step]; try exact Sl; apply IH; congruence.
+  Qed.
+
+  Lemma script_step_fresh acts : forall s n, forallb (act_ok true) acts = true ->
+    slot_fresh (s_now s) (s_map s n) -> slot_fresh (s_now s) (s_map (script_step s n acts) n).
+  Proof.
+    induction acts as [|a r IH]; intros s n Ok Fr; [exact Fr|].
+    cbn [forallb] in Ok. apply andb_true_iff in Ok as [Oa Ok].
+    pose proof (act_step_fresh s n a Oa Fr) as Fr'.
+    destruct (act_step_frame s n a) as (A1 & _).
+    destruct a; cbn [script_step]; try exact Fr; rewrite <- A1; apply IH; try assumption; rewrite A1; exact Fr'.
+  Qed.
+
+  Definition exp_ok (ls : list (N * beh)) : Prop :=
+    forall lb, In lb ls -> forallb (act_ok true) (b_expired (snd lb)) = true.
+
+  Lemma note_fold_frame kd ls : forall s n,
+    s_now (note_fold kd ls s n) = s_now s /\ s_lst (note_fold kd ls s n) = s_lst s /\
+    (forall k, k <> n -> s_map (note_fold kd ls s n) k = s_map s k) /\
+    (In n (s_names s) -> s_names (note_fold kd ls s n) = s_names s).
+  Proof.
+    induction ls as [|lb r IH]; intros s n; [repeat split; reflexivity|]. cbn [note_fold].
+    destruct (script_step_frame (script_of kd (snd lb)) s n) as (A1 & A2 & A3 & A4).
+    destruct (IH (script_step s n (script_of kd (snd lb))) n) as (B1 & B2 & B3 & B4).
+    split; [congruence|]. split; [congruence|]. split.
+    - intros k Hk. rewrite B3, A3; auto.
+    - intros H. rewrite B4, A4; auto. rewrite A4; auto.
+  Qed.
+
+  Lemma note_fold_slot kd ls : forall s s' n, s_now s = s_now s' -> s_map s n = s_map s' n ->
+    s_map (note_fold kd ls s n) n = s_map (note_fold kd ls s' n) n.
+  Proof.
+    induction ls as [|lb r IH]; intros s s' n Nw Sl; [exact Sl|]. cbn [note_fold].
+    pose proof (script_step_slot (script_of kd (snd lb)) s s' n Nw Sl) as Sl'.
+    destruct (script_step_frame (script_of kd (snd lb)) s n) as (A1 & _).
+    destruct (script_step_frame (script_of kd (snd lb)) s' n) as (A1' & _).
+    apply IH; congruence.
+  Qed.
+
+  Lemma note_fold_fresh ls : forall s n, exp_ok ls -> slot_fresh (s_now s) (s_map s n) ->
+    slot_fresh (s_now s) (s_map (note_fold KExpired ls s n) n).
+  Proof.
+    induction ls as [|lb r IH]; intros s n Ok Fr; [exact Fr|]. cbn [note_fold script_of].
+    pose proof (script_step_fresh (b_expired (snd lb)) s n (Ok lb (or_introl eq_refl)) Fr) as Fr'.
+    destruct (script_step_frame (b_expired (snd lb)) s n) as (A1 & _).
+    rewrite <- A1. apply IH; [intros x Hx; apply Ok; right; exact Hx|]. rewrite A1. exact Fr'.
+  Qed.
+
+  Lemma sdel_same n (mp0 : smap) : sdel n mp0 n = None.
+  Proof. unfold sdel. rewrite beqb_refl. reflexivity. Qed.
+
+  Lemma exp_one_frame s n :
+    s_now (exp_one s n) = s_now s /\ s_lst (exp_one s n) = s_lst s /\
+    (forall k, k <> n -> s_map (exp_one s n) k = s_map s k) /\
+    (In n (s_names s) -> s_names (exp_one s n) = s_names s).
+  Proof.
+    unfold exp_one, note_step.
+    destruct (note_fold_frame KExpired (s_lst (del_name s n)) (del_name s n) n) as (A1 & A2 & A3 & A4).
+    split; [exact A1|]. split; [exact A2|]. split; [|exact A4].
+    intros k Hk. rewrite A3 by exact Hk. cbn [del_name s_map]. unfold sdel. rewrite (beqb_neq_false n k); auto.
+  Qed.
+
+  Lemma exp_one_slot s s' n : s_now s = s_now s' -> s_lst s = s_lst s' ->
+    s_map (exp_one s n) n = s_map (exp_one s' n) n.
+  Proof.
+    intros Nw Ls. unfold exp_one, note_step. cbn [del_name s_lst]. rewrite Ls.
+    apply note_fold_slot; [exact Nw|]. cbn [del_name s_map]. rewrite !sdel_same. reflexivity.
+  Qed.
+
+  Lemma exp_one_due s n k : exp_ok (s_lst s) ->
+    due_in (s_now s) (s_map (exp_one s n)) k = if beqb n k then false else due_in (s_now s) (s_map s) k.
+  Proof.
+    intros Ok. destruct (beqb n k) eqn:E.
+    - apply beqb_eq in E. subst k. unfold due_in.
+      pose proof (note_fold_fresh (s_lst s) (del_name s n) n Ok) as Fr. cbn [del_name s_now s_map] in Fr.
+      rewrite sdel_same in Fr. specialize (Fr I). unfold exp_one, note_step. cbn [del_name s_lst].
+      unfold slot_fresh in Fr. destruct (s_map _ n); [exact Fr|reflexivity].
+    - destruct (exp_one_frame s n) as (_ & _ & A3 & _). unfold due_in. rewrite A3; [reflexivity|].
+      intros ->. rewrite beqb_refl in E. discriminate.
+  Qed.
+
+  Lemma memB_cons k n l : memB k (n :: l) = beqb k n || memB k l.
+  Proof. reflexivity. Qed.
+
+  (* the names of L expire one after the other: in closed form, whatever the order *)
+  Lemma fold_exp_char L : forall s, (forall n, In n L -> In n (s_names s)) ->
+    s_now (fold_left exp_one L s) = s_now s /\ s_lst (fold_left exp_one L s) = s_lst s /\
+    s_names (fold_left exp_one L s) = s_names s /\
+    forall k, s_map (fold_left exp_one L s) k = if memB k L then s_map (exp_one s k) k else s_map s k.
+  Proof.
+    induction L as [|n L IH]; intros s Sub; [repeat split; reflexivity|]. cbn [fold_left].
+    destruct (exp_one_frame s n) as (A1 & A2 & A3 & A4).
+    assert (A4' : s_names (exp_one s n) = s_names s) by (apply A4, Sub; left; reflexivity).
+    destruct (IH (exp_one s n)) as (B1 & B2 & B3 & B4).
+    { intros x Hx. rewrite A4'. apply Sub. right. exact Hx. }
+    split; [congruence|]. split; [congruence|]. split; [congruence|].
+    intros k. rewrite B4, memB_cons.
+    destruct (memB k L) eqn:Mk.
+    - rewrite orb_true_r. apply exp_one_slot; assumption.
+    - rewrite orb_false_r. destruct (beqb k n) eqn:E.
+      + apply beqb_eq in E. subst k. reflexivity.
+      + apply A3. apply beqb_false_neq. exact E.
+  Qed.
+
+  Lemma R_ext m s s' : R m s -> s_now s' = s_now s -> s_lst s' = s_lst s -> s_names s' = s_names s ->
+    (forall k, s_map s' k = s_map s k) -> R m s'.
+  Proof.
+    intros HR Nw Ls Nm Mp. constructor.
+    - rewrite Nw. apply HR.
+    - rewrite Ls. apply HR.
+    - intros n Hn. rewrite Mp. apply (R_name _ _ HR n Hn).
+    - intros n v. rewrite Mp, Nm. apply (R_held _ _ HR).
+    - intros n. rewrite Nm. apply (R_names _ _ HR).
+    - apply HR.
+    - apply HR.
+    - apply HR.
+    - apply HR.
+    - apply HR.
+    - apply HR.
+    - intros t id H. destruct (R_call _ _ HR t id H) as (n & v & t0 & A & B & C & D).
+      exists n, v, t0. rewrite Mp. auto.
+    - intros n v t0 id Hn. rewrite Mp. apply (R_hascall _ _ HR n v t0 id Hn).
+    - rewrite Ls. apply HR.
+  Qed.
+
+  (* when the clock's first call is not due, no held name is due *)
+  Lemma no_due_left m s : R m s ->
+    match calls m with [] => True | c :: _ => (now m < fst c)%Z end ->
+    forall k, ~ In k (due_names s).
+  Proof.
+    intros HR Hd k H. unfold due_names in H. apply filter_In in H as [Hk Du]. unfold due_in in Du.
+    destruct (s_map s k) as [v|] eqn:Sm; [|discriminate].
+    destruct (m_exp v) as [|t0] eqn:Ex; [discriminate|]. cbn [due_exp] in Du.
+    assert (HkNS : In k NS) by (eapply R_names; eauto).
+    pose proof (R_name _ _ HR k HkNS) as A. rewrite Sm in A. destruct A as (id & D & _).
+    destruct (R_hascall _ _ HR k v t0 id HkNS Sm Ex D) as (t & Hc).
+    destruct (R_call _ _ HR t id Hc) as (n' & v' & t0' & Hn' & D' & Sm' & Ex' & Tm).
+    assert (n' = k) by (eapply R_inj; eauto). subst n'.
+    assert (v' = v) by congruence. subst v'. assert (t0' = t0) by congruence. subst t0'.
+    rewrite <- (R_now _ _ HR) in Du.
+    assert (Tl : (t <= now m)%Z) by lia.
+    pose proof (R_sorted _ _ HR) as So.
+    destruct (calls m) as [|c rest]; [destruct Hc|]. destruct So as [S1 _].
+    destruct Hc as [->|Hc]; [cbn [fst] in Hd; lia|]. specialize (S1 _ Hc). cbn [fst] in S1. lia.
+  Qed.
+
+  Lemma heard_notin n l0 ls : ~ In l0 (map fst ls) -> heard n l0 ls = [].
+  Proof.
+    induction ls as [|lb r IH]; intros H; [reflexivity|]. unfold heard in *. cbn [flat_map].
+    assert (E : (fst lb =? l0) = false) by (apply N.eqb_neq; intros E; apply H; left; exact E).
+    rewrite E. apply IH. intros A. apply H. right. exact A.
+  Qed.
+
+  Lemma filter_len_le {A} (p q : A -> bool) l : (forall x, In x l -> p x = true -> q x = true) ->
+    (length (filter p l) <= length (filter q l))%nat.
+  Proof.
+    induction l as [|x l IH]; intros H; [cbn; lia|]. cbn [filter].
+    assert (IH' : (length (filter p l) <= length (filter q l))%nat)
+      by (apply IH; intros y Hy; apply H; right; exact Hy).
+    destruct (p x) eqn:Px.
+    - rewrite (H x (or_introl eq_refl) Px). cbn [length]. lia.
+    - destruct (q x); cbn [length]; lia.
+  Qed.
+
+  Lemma len1_same {A} (l : list A) a b : (length l <= 1)%nat -> In a l -> In b l -> a = b.
+  Proof.
+    destruct l as [|x [|y l]]; cbn [length]; intros Hl Ha Hb; try lia; [destruct Ha|].
+    destruct Ha as [<-|[]]. destruct Hb as [<-|[]]. reflexivity.
+  Qed.
+
+  (* ---- Clock.advance ---- *)
+  Lemma Lok_exp_ok ls : Lok ls -> exp_ok ls.
+  Proof. intros L lb H. destruct (Lok_script KExpired lb ls L H) as [A _]. exact A. Qed.
+
+  Lemma fire_stop fuel m :
+    match calls m with [] => True | c :: _ => (now m < fst c)%Z end -> fire_due fuel m = Some (m, []).
+  Proof.
+    intros H. destruct fuel; cbn [fire_due]; destruct (calls m) as [|c rest]; try reflexivity;
+      (assert (E : (fst c <=? now m)%Z = false) by lia); rewrite E; reflexivity.
+  Qed.
+
+  Lemma fire_step f fuel m c rest : calls m = c :: rest -> (fst c <=? now m)%Z = true ->
+    fire_due (f :: fuel) m =
+    match notify_top (lst m) (mk m (ddel_val (snd c) (dict m)) (heap m) rest (nid m)) (NExpired (name_of m (snd c))) with
+    | Some (s2, e1) => match fire_due fuel s2 with Some (s3, e2) => Some (s3, e1 ++ e2) | None => None end
+    | None => None
+    end.
+  Proof. intros Cs Due. cbn [fire_due]. rewrite Cs, Due. reflexivity. Qed.
+
+  Lemma due_names_exp_one s n k : exp_ok (s_lst s) -> In n (s_names s) ->
+    In k (due_names (exp_one s n)) <-> In k (due_names s) /\ k <> n.
+  Proof.
+    intros Ok Hn. destruct (exp_one_frame s n) as (A1 & _ & _ & A4). unfold due_names.
+    rewrite A1, (A4 Hn), !filter_In, (exp_one_due s n k Ok).
+    destruct (beqb n k) eqn:E.
+    - apply beqb_eq in E. subst k. split; [intros [_ H]; discriminate|intros [_ H]; congruence].
+    - apply beqb_false_neq in E. split; [intros [A B]; auto|intros [[A B] _]; auto].
+  Qed.
+
+  Lemma due_names_exp_one_len s n : exp_ok (s_lst s) -> In n (s_names s) ->
+    (length (due_names (exp_one s n)) <= length (due_names s))%nat.
+  Proof.
+    intros Ok Hn. destruct (exp_one_frame s n) as (A1 & _ & _ & A4). unfold due_names.
+    rewrite A1, (A4 Hn). apply filter_len_le. intros k _. rewrite (exp_one_due s n k Ok).
+    destruct (beqb n k); [discriminate|auto].
+  Qed.
+
+  Definition fire_post (m : mst) (s : sst) (m' : mst) (es : list obs) (L : list bytes) : Prop :=
+    R m' (fold_left exp_one L s) /\ lst m' = lst m /\
+    NoDup L /\ (forall k, In k L <-> In k (due_names s)) /\ (L = [] -> es = []) /\
+    (forall lb0 r, lst m = lb0 :: r -> expired_names (fst lb0) es = L) /\
+    ((lst_lookup KExpired s = false \/ (length (due_names s) <= 1)%nat) -> adv_ok L s es = true).
+
+  Lemma fire_stop_sim fuel m s : R m s ->
+    match calls m with [] => True | c :: _ => (now m < fst c)%Z end ->
+    exists m' es L, fire_due fuel m = Some (m', es) /\ fire_post m s m' es L.
+  Proof.
+    intros HR Hd. exists m, [], []. split; [apply fire_stop; exact Hd|].
+    split; [exact HR|]. split; [reflexivity|]. split; [constructor|]. split; [|split; [reflexivity|]].
+    - intros k. split; [intros []|]. intros H. exact (no_due_left m s HR Hd k H).
+    - split; [reflexivity|]. intros _. reflexivity.
+  Qed.
+
+  Lemma fire_sim fuel : forall m s,
+    R m s -> Lok (lst m) -> (duecnt (now m) (calls m) <= length fuel)%nat ->
+    exists m' es L, fire_due fuel m = Some (m', es) /\ fire_post m s m' es L.
+  Proof.
+    induction fuel as [|f fuel IH]; intros m s HR L Dc;
+      (destruct (calls m) as [|c rest] eqn:Cs; [apply fire_stop_sim; [exact HR|rewrite Cs; exact I]|]);
+      (destruct (fst c <=? now m)%Z eqn:Due; [|apply fire_stop_sim; [exact HR|rewrite Cs; lia]]).
+    - exfalso. unfold duecnt in Dc. cbn [filter] in Dc. unfold isdue at 1 in Dc. rewrite Due in Dc.
+      cbn [length] in Dc. lia.
+    - destruct c as [t id]. cbn [fst snd] in *.
+      assert (Hc : In (t, id) (calls m)) by (rewrite Cs; left; reflexivity).
+      destruct (R_call _ _ HR t id Hc) as (n & v & t0 & Hn & D & Sm & Ex & Tm).
+      assert (Hnm : In n (s_names s)) by (eapply R_held; eauto).
+      assert (Nm : name_of m id = n).
+      { pose proof (R_name _ _ HR n Hn) as A. rewrite Sm in A. destruct A as (id' & D' & Hh).
+        assert (id' = id) by congruence. subst id'. unfold name_of, hget. rewrite Hh. reflexivity. }
+      assert (NI : ~ In id (map snd rest)).
+      { pose proof (R_nodup _ _ HR) as ND. rewrite Cs in ND. cbn [map snd] in ND. inversion ND; assumption. }
+      assert (DueN : In n (due_names s)).
+      { unfold due_names. apply filter_In. split; [exact Hnm|]. unfold due_in. rewrite Sm, Ex. cbn [due_exp].
+        rewrite <- (R_now _ _ HR). lia. }
+      assert (Ok : exp_ok (s_lst s)) by (rewrite <- (R_lst _ _ HR); apply Lok_exp_ok; exact L).
+      (* the entry goes ... *)
+      pose proof (R_herr m s n id (heap m) HR Hn D (fun i _ => eq_refl)) as HRa.
+      pose proof (cancel_head (t, id) rest NI) as CH. cbn [snd] in CH. rewrite Cs, CH in HRa.
+      rewrite (names_add_in n _ Hnm) in HRa. change {| s_now := s_now s; s_map := sdel n (s_map s);
+        s_names := s_names s; s_lst := s_lst s |} with (del_name s n) in HRa.
+      (* ... then the listeners hear of it *)
+      destruct (notify_sim KExpired (lst m) _ _ n [] (NExpired n) HRa Hn L eq_refl)
+        as (m2 & e1 & Nt & HR2 & Nw2 & Ls2 & Dc2 & _ & En1 & Ok1).
+      cbn [mk now lst calls] in Nw2, Ls2, Dc2.
+      assert (HR2' : R m2 (exp_one s n)).
+      { unfold exp_one, note_step. cbn [del_name s_lst]. rewrite <- (R_lst _ _ HR). exact HR2. }
+      assert (Dc' : (duecnt (now m2) (calls m2) <= length fuel)%nat).
+      { rewrite Nw2. unfold duecnt in Dc. cbn [filter] in Dc. unfold isdue at 1 in Dc. cbn [fst] in Dc.
+        rewrite Due in Dc. cbn [length] in Dc. fold (duecnt (now m) rest) in Dc. lia. }
+      assert (L2 : Lok (lst m2)) by (rewrite Ls2; exact L).
+      destruct (IH m2 (exp_one s n) HR2' L2 Dc') as (m3 & e2 & L' & Fd & HR3 & Ls3 & ND & Mem & _ & En3 & Ok3).
+      exists m3, (e1 ++ e2), (n :: L').
+      split; [rewrite (fire_step f fuel m (t, id) rest Cs Due); cbn [snd]; rewrite Nm, Nt, Fd; reflexivity|].
+      split; [exact HR3|]. split; [congruence|].
+      assert (NL : ~ In n L').
+      { intros H. apply Mem in H. apply (due_names_exp_one s n n Ok Hnm) in H. destruct H as [_ H]. congruence. }
+      split; [constructor; assumption|]. split.
+      { intros k. cbn [In]. split.
+        - intros [<-|H]; [exact DueN|]. apply Mem, (due_names_exp_one s n k Ok Hnm) in H. apply H.
+        - intros H. destruct (beqb n k) eqn:E; [left; apply beqb_eq; exact E|right].
+          apply Mem, (due_names_exp_one s n k Ok Hnm). split; [exact H|].
+          intros ->. rewrite beqb_refl in E. discriminate. }
+      split; [discriminate|].
+      split.
+      + intros lb0 r Hl. rewrite expired_names_app, (En1 eq_refl), (En3 lb0 r ltac:(congruence)).
+        rewrite Hl. unfold heard at 1. cbn [flat_map]. rewrite N.eqb_refl. fold (heard n (fst lb0) r).
+        rewrite heard_notin; [reflexivity|].
+        pose proof (R_lstnd _ _ HR) as NDl. rewrite <- (R_lst _ _ HR), Hl in NDl. cbn [map] in NDl.
+        inversion NDl; assumption.
+      + intros Hs. cbn [adv_ok]. rewrite <- (R_lst _ _ HR). rewrite Ok1.
+        * apply Ok3. destruct (exp_one_frame s n) as (_ & A2 & _). destruct Hs as [Hs|Hs].
+          -- left. unfold lst_lookup in *. rewrite A2. exact Hs.
+          -- right. pose proof (due_names_exp_one_len s n Ok Hnm). lia.
+        * destruct Hs as [Hs|Hs].
+          -- left. intros lb Hl. unfold lst_lookup in Hs. rewrite <- (R_lst _ _ HR) in Hs.
+             exact (existsb_false _ _ Hs lb Hl).
+          -- right. unfold any_due. apply existsb_false_intro. intros k Hk. cbn [del_name s_now s_map s_names] in *.
+             unfold due_in, sdel. destruct (beqb n k) eqn:E; [reflexivity|].
+             destruct (match s_map s k with Some v0 => due_exp (s_now s) (m_exp v0) | None => false end) eqn:Dk;
+               [|reflexivity].
+             assert (Dn : In k (due_names s)) by (unfold due_names; apply filter_In; split; [exact Hk|exact Dk]).
+             pose proof (len1_same _ n k Hs DueN Dn). subst k. rewrite beqb_refl in E. discriminate.
+  Qed.
+
+  Definition bump (m : mst) (dt : N) : mst :=
+    {| dict := dict m; heap := heap m; calls := calls m; now := (now m + Z.of_N dt)%Z; nid := nid m; lst := lst m |}.
+
+  Lemma R_bump m s dt : R m s -> R (bump m dt) (bump_s s dt).
+  Proof.
+    intros HR. constructor; unfold bump, bump_s; cbn [dict heap calls now nid lst s_now s_map s_names s_lst];
+      try apply HR.
+    - rewrite (R_now _ _ HR). reflexivity.
+    - intros t id H. destruct (R_call _ _ HR t id H) as (n & v & t0 & A & B & C & D & E).
+      exists n, v, t0. repeat split; auto. lia.
+  Qed.
+
+  Lemma duecnt_le_len nw cs : (duecnt nw cs <= length cs)%nat.
+  Proof.
+    unfold duecnt. induction cs as [|c cs IH]; [cbn; lia|]. cbn [filter]. destruct (isdue nw c); cbn [length]; lia.
+  Qed.
+
+  Lemma memB_ext k (l1 l2 : list bytes) : (forall x, In x l1 <-> In x l2) -> memB k l1 = memB k l2.
+  Proof.
+    intros H. destruct (memB k l1) eqn:E1; destruct (memB k l2) eqn:E2; try reflexivity.
+    - apply memB_In, H, memB_In in E1. congruence.
+    - apply memB_In, H, memB_In in E2. congruence.
+  Qed.
 
   Lemma nodupB_NoDup l : NoDup l -> nodupB l = true.
   Proof.
@@ -738,114 +1440,47 @@ Section Sim.
     apply negb_true_iff. destruct (memB x l) eqn:E; [|reflexivity]. apply memB_In in E. contradiction.
   Qed.
 
-  Lemma NoDup_map_inj {A B} (f : A -> B) l :
-    NoDup l -> (forall x y, In x l -> In y l -> f x = f y -> x = y) -> NoDup (map f l).
+  Lemma adv_ok_nolst L : forall s es, s_lst s = [] -> adv_ok L s es = true -> es = [].
   Proof.
-    induction 1 as [|x l Hx ND IH]; intros Inj; [constructor|]. cbn [map]. constructor.
-    - intros H. apply in_map_iff in H as (y & E & Hy). apply Hx.
-      assert (y = x) by (apply Inj; [right; exact Hy|left; reflexivity|exact E]). subst. exact Hy.
-    - apply IH. intros a b Ha Hb. apply Inj; right; assumption.
+    induction L as [|n L IH]; intros s es Ls H.
+    - cbn [adv_ok] in H. destruct es; [reflexivity|discriminate].
+    - cbn [adv_ok] in H. rewrite Ls in H. cbn [notify_ok] in H. apply IH in H; [exact H|].
+      destruct (exp_one_frame s n) as (_ & A2 & _). congruence.
   Qed.
 
-  Lemma R_advance m s dt m' es :
-    R m s -> advance m dt = (m', es) ->
-    R m' (spec_step s (OAdvance dt)) /\ chunk_ok s (OAdvance dt) es = true.
+  Lemma adv_sim m s dt : R m s -> Lok (lst m) ->
+    exists m' es, advance m dt = Some (m', es) /\ R m' (spec_step s (OAdvance dt)) /\ lst m' = lst m /\
+      (stale_lookup_op s (OAdvance dt) = false -> chunk_ok s (OAdvance dt) es = true).
   Proof.
-    intros HR Adv. unfold advance in Adv. fold (bump m dt) in Adv.
-    apply fire_due_char in Adv. cbn [bump dict heap calls now nid lst] in Adv.
-    destruct Adv as (Dm & Hh & Hc & Hn & Hi & Hl & He).
-    set (now' := (now m + Z.of_N dt)%Z) in *.
-    set (pre := due_prefix now' (calls m)) in *.
-    assert (Nw : (s_now s + Z.of_N dt)%Z = now') by (unfold now'; rewrite (R_now _ _ HR); reflexivity).
-    assert (Dsub : forall k i, dict m' k = Some i <-> dict m k = Some i /\ ~ In i (map snd pre)).
-    { intros k i. rewrite Dm. destruct (dict m k) as [v|]; [|split; [discriminate|intros [A _]; discriminate]].
-      destruct (memN v (map snd pre)) eqn:E.
-      - apply memN_In in E. split; [discriminate|]. intros [A B]. injection A as ->. contradiction.
-      - split; [intros A; injection A as <-|intros [A _]; exact A]. split; [reflexivity|].
-        intros A. apply memN_In in A. congruence. }
-    assert (Fd : forall n v id, In n NS -> s_map s n = Some v -> dict m n = Some id ->
-                 (In id (map snd pre) <-> due_exp now' (m_exp v) = true)).
-    { intros n v id Hn' Sm D. rewrite <- Nw. unfold pre, now'. eapply fired_iff_due; eauto. }
-    assert (Suf : forall t i, In (t, i) (calls m') -> In (t, i) (calls m) /\ (now' < t)%Z).
-    { intros t i H. rewrite Hc in H. apply In_due_suffix in H; [exact H|apply HR]. }
+    intros HR L. change (advance m dt) with (fire_due (calls (bump m dt)) (bump m dt)).
+    pose proof (R_bump m s dt HR) as HR1. set (m1 := bump m dt) in *. set (s1 := bump_s s dt) in *.
+    destruct (fire_sim (calls m1) m1 s1 HR1 L (duecnt_le_len _ _)) as (m' & es & L0 & Fd & HR' & Ls' & ND & Mem & Nil & En & Ok).
+    exists m', es. split; [exact Fd|].
+    assert (Sub0 : forall n, In n L0 -> In n (s_names s1)).
+    { intros n H. apply Mem in H. unfold due_names in H. apply filter_In in H. apply H. }
+    assert (Sub1 : forall n, In n (due_names s1) -> In n (s_names s1)).
+    { intros n H. unfold due_names in H. apply filter_In in H. apply H. }
+    destruct (fold_exp_char L0 s1 Sub0) as (A1 & A2 & A3 & A4).
+    destruct (fold_exp_char (due_names s1) s1 Sub1) as (B1 & B2 & B3 & B4).
     split.
-    - cbn [spec_step]. rewrite Nw.
-      constructor; cbn [s_now s_map s_names s_lst].
-      + exact Hn.
-      + rewrite Hl. apply HR.
-      + intros n Hn'. pose proof (R_name _ _ HR n Hn') as A. unfold sweep.
-        destruct (s_map s n) as [v|] eqn:Sm.
-        * destruct A as (id & D & Hhp). destruct (due_exp now' (m_exp v)) eqn:Du.
-          -- destruct (dict m' n) as [i|] eqn:X; [|reflexivity]. apply Dsub in X as [X NI].
-             assert (i = id) by congruence. subst i. exfalso. apply NI. eapply Fd; eauto.
-          -- exists id. split; [|rewrite Hh; exact Hhp]. apply Dsub. split; [exact D|].
-             intros A. eapply Fd in A; eauto. congruence.
-        * destruct (dict m' n) as [i|] eqn:X; [|reflexivity]. apply Dsub in X as [X _]. congruence.
-      + intros n v. unfold sweep. destruct (s_map s n) as [v'|] eqn:Sm; [|discriminate].
-        intros _. eapply R_held; eauto.
-      + apply HR.
-      + intros k i H. apply Dsub in H as [H _]. rewrite Hi. eapply R_fresh; eauto.
-      + intros t i H. apply Suf in H as [H _]. rewrite Hi. eapply R_cfresh; eauto.
-      + intros n1 n2 i H1 H2 A B. apply Dsub in A as [A _]. apply Dsub in B as [B _]. eapply R_inj; eauto.
-      + intros k i H Hk. apply Dsub in H as [H NI]. destruct (R_addr _ _ HR k i H Hk) as (n & Hn' & D).
-        exists n. split; [exact Hn'|]. apply Dsub. auto.
-      + rewrite Hc. apply sorted_suffix. apply HR.
-      + rewrite Hc. apply nodup_suffix. apply HR.
-      + intros t i H. apply Suf in H as [H L].
-        destruct (R_call _ _ HR t i H) as (n & v & t0 & Hn' & D & Sm & Ex & Tm).
-        assert (T0 : t = t0) by (unfold now' in L; lia). subst t0.
-        assert (Du : due_exp now' (m_exp v) = false) by (rewrite Ex; cbn [due_exp]; lia).
-        exists n, v, t. repeat split; auto.
-        * apply Dsub. split; [exact D|]. intros A. eapply Fd in A; eauto. congruence.
-        * unfold sweep. rewrite Sm, Du. reflexivity.
-      + intros n v t0 id Hn' Sm Ex D. unfold sweep in Sm.
-        destruct (s_map s n) as [v'|] eqn:Sm'; [|discriminate].
-        destruct (due_exp now' (m_exp v')) eqn:Du; [discriminate|]. injection Sm as ->.
-        apply Dsub in D as [D NI].
-        destruct (R_hascall _ _ HR n v t0 id Hn' Sm' Ex D) as (t & H).
-        destruct (R_call _ _ HR t id H) as (n' & v'' & t0' & Hn'' & D' & Sm'' & Ex' & Tm).
-        assert (n' = n) by (eapply R_inj; eauto). subst n'.
-        assert (v'' = v) by congruence. subst v''. assert (t0' = t0) by congruence. subst t0'.
-        rewrite Ex in Du. cbn [due_exp] in Du.
-        exists t. rewrite Hc. apply due_suffix_all; [exact H|]. cbn [fst]. lia.
-      + apply HR.
-    - (* what the listeners heard *)
-      cbn [chunk_ok]. rewrite Nw. rewrite <- (R_lst _ _ HR).
-      set (names := map (fun c => nm (heap m) (snd c)) pre).
-      assert (Es : es = flat_map (expired_block (lst m)) names).
-      { rewrite He. unfold names. rewrite flat_map_map. reflexivity. }
-      (* every fired call belongs to a held, due name, and its Addr carries that name *)
-      assert (Own : forall c, In c pre -> exists n v, In n NS /\ s_map s n = Some v /\ dict m n = Some (snd c) /\
-                                                nm (heap m) (snd c) = n /\ due_exp now' (m_exp v) = true).
-      { intros [t i] H. pose proof H as H0. apply In_due_prefix in H as [H L].
-        destruct (R_call _ _ HR t i H) as (n & v & t0 & Hn' & D & Sm & Ex & Tm).
-        exists n, v. cbn [snd]. repeat split; auto.
-        - pose proof (R_name _ _ HR n Hn') as A. rewrite Sm in A. destruct A as (id & D' & Hhp).
-          assert (id = i) by congruence. subst id. unfold nm. rewrite Hhp. reflexivity.
-        - eapply Fd; eauto. apply in_map_iff. exists (t, i). auto. }
-      destruct (lst m) as [|l0 ls] eqn:Ls.
-      + rewrite Es. cbn [flat_map]. clear. induction names; [reflexivity|]. cbn. exact IHnames.
-      + assert (NIl : ~ In l0 ls).
-        { pose proof (R_lstnd _ _ HR) as ND. rewrite <- (R_lst _ _ HR), Ls in ND. inversion ND; auto. }
-        rewrite Es. rewrite expired_names_blocks by exact NIl.
-        rewrite chunk_eqb_refl. cbn [andb].
-        apply andb_true_iff. split; [apply andb_true_iff; split|].
-        * apply nodupB_NoDup. unfold names.
-          rewrite <- (map_map snd (nm (heap m))). apply NoDup_map_inj.
-          -- apply nodup_prefix. apply HR.
-          -- intros i j Hi' Hj E. apply in_map_iff in Hi' as (ci & <- & Hci). apply in_map_iff in Hj as (cj & <- & Hcj).
-             destruct (Own ci Hci) as (n1 & v1 & _ & _ & D1 & N1 & _).
-             destruct (Own cj Hcj) as (n2 & v2 & _ & _ & D2 & N2 & _). congruence.
-        * apply forallb_forall. intros n Hn'. unfold names in Hn'. apply in_map_iff in Hn' as (c & <- & Hc').
-          destruct (Own c Hc') as (n & v & Hn'' & Sm & D & -> & Du).
-          apply memB_In. apply filter_In. split; [eapply R_held; eauto|]. unfold due_in. rewrite Sm. exact Du.
-        * apply forallb_forall. intros n Hn'. apply filter_In in Hn' as [Hn' Du]. unfold due_in in Du.
-          destruct (s_map s n) as [v|] eqn:Sm; [|discriminate].
-          assert (HnNS : In n NS) by (eapply R_names; eauto).
-          pose proof (R_name _ _ HR n HnNS) as A. rewrite Sm in A. destruct A as (id & D & Hhp).
-          assert (F : In id (map snd pre)) by (eapply Fd; eauto).
-          apply in_map_iff in F as (c & E & Hc'). apply memB_In. unfold names. apply in_map_iff.
-          exists c. split; [|exact Hc']. rewrite E. unfold nm. rewrite Hhp. reflexivity.
+    { cbn [spec_step]. fold s1. eapply R_ext; [exact HR'|congruence|congruence|congruence|].
+      intros k. rewrite A4, B4, (memB_ext k _ _ Mem). reflexivity. }
+    split; [exact Ls'|].
+    cbn [stale_lookup_op chunk_ok]. fold s1. intros Sl.
+    destruct (is_nil (due_names s1)) eqn:Dn.
+    - (* nothing is due *)
+      destruct (due_names s1) as [|x dn] eqn:Dn'; [|discriminate].
+      assert (L0 = []).
+      { destruct L0 as [|x r]; [reflexivity|]. exfalso. apply (Mem x). left. reflexivity. }
+      subst L0. rewrite (Nil eq_refl). destruct (s_lst s); reflexivity.
+    - assert (Hs : lst_lookup KExpired s1 = false \/ (length (due_names s1) <= 1)%nat).
+      { apply andb_false_iff in Sl as [Sl|Sl]; [left; exact Sl|right]. apply N.leb_gt in Sl. lia. }
+      specialize (Ok Hs).
+      destruct (s_lst s) as [|lb0 r] eqn:Ll.
+      + assert (es = []) by (eapply adv_ok_nolst; [|exact Ok]; exact Ll). subst es. reflexivity.
+      + rewrite (En lb0 r ltac:(unfold m1; cbn [bump lst]; rewrite (R_lst _ _ HR); exact Ll)).
+        rewrite (nodupB_NoDup _ ND), Ok. cbn [andb]. rewrite andb_true_r.
+        apply andb_true_iff. split; apply forallb_forall; intros n H; apply memB_In; apply Mem; exact H.
   Qed.
 End Sim.
 
@@ -855,95 +1490,48 @@ End Sim.
 Definition op_within (NS : list bytes) (o : op) : Prop :=
   match o with
   | OEv ts => forall v, parse_ev ts = Some v -> In (v_name v) NS /\ ~ In (ev_key v) NS
+  | OAddL _ b => forall ip, In ip (beh_keys b) -> ~ In ip NS
   | _ => True
   end.
 
-Lemma oz_eqb_refl e : oz_eqb e e = true.
-Proof. destruct e as [z|]; cbn; [apply Z.eqb_refl|reflexivity]. Qed.
+Definition plainNS (NS : list bytes) : Prop := forall n, In n NS -> plain_bytes n = true.
 
-Lemma existsb_false {A} (f : A -> bool) l : existsb f l = false -> forall x, In x l -> f x = false.
-Proof.
-  intros H x Hx. destruct (f x) eqn:E; [|reflexivity].
-  assert (existsb f l = true) by (apply existsb_exists; eauto). congruence.
-Qed.
-
-Lemma find_chunk NS m s k :
-  R NS m s -> stale_lookup_op s (OFind k) = false -> chunk_ok s (OFind k) (find m k) = true.
-Proof.
-  intros HR St. cbn [stale_lookup_op] in St.
-  assert (Nd : forall n v, s_map s n = Some v -> due_exp (s_now s) (m_exp v) = false).
-  { intros n v Sm. pose proof (existsb_false _ _ St n (R_held _ _ _ HR n v Sm)) as A.
-    unfold due_in in A. rewrite Sm in A. exact A. }
-  cbn [chunk_ok]. unfold find, dget, hget.
-  destruct (memB k (s_names s)) eqn:Mk.
-  - apply memB_In in Mk. assert (Hk : In k NS) by (eapply R_names; eauto).
-    pose proof (R_name _ _ _ HR k Hk) as A. unfold live.
-    destruct (s_map s k) as [v|] eqn:Sm.
-    + destruct A as (id & D & Hh). rewrite D, Hh, (Nd k v Sm). unfold entry_of. cbn [e_name e_ip e_exp].
-      apply chunk_eqb_refl.
-    + rewrite A. reflexivity.
-  - destruct (dict m k) as [id|] eqn:D; [|reflexivity].
-    destruct (memB k NS) eqn:Mn.
-    + apply memB_In in Mn. destruct (R_dict_held _ _ _ _ HR Mn id D) as (v & Sm & _).
-      apply (R_held _ _ _ HR) in Sm. apply memB_In in Sm. congruence.
-    + assert (Hk : ~ In k NS) by (intros A; apply memB_In in A; congruence).
-      destruct (R_addr _ _ _ HR k id D Hk) as (n & Hn & Dn).
-      destruct (R_dict_held _ _ _ _ HR Hn id Dn) as (v & Sm & Hh).
-      rewrite Hh. unfold entry_of. cbn [e_name e_ip e_exp]. unfold live. rewrite Sm, (Nd n v Sm).
-      rewrite beqb_refl, oz_eqb_refl. reflexivity.
-Qed.
-
-Lemma step_sim NS m s o :
-  R NS m s -> op_in_scope o = true -> op_within NS o ->
-  exists m' es, step m o = Some (m', es) /\ R NS m' (spec_step s o) /\
+Lemma step_sim NS (NSp : plainNS NS) m s o :
+  R NS m s -> Lok NS (lst m) -> op_in_scope o = true -> op_within NS o ->
+  exists m' es, step m o = Some (m', es) /\ R NS m' (spec_step s o) /\ Lok NS (lst m') /\
     (stale_lookup_op s o = false -> chunk_ok s o es = true).
 Proof.
-  intros HR Sc W. destruct o as [ts|dt|k|l].
+  intros HR L Sc W. destruct o as [ts|dt|k|l b].
   - cbn [op_in_scope] in Sc. destruct (parse_ev ts) as [v|] eqn:P; [|discriminate].
-    destruct (W v P) as [Hn Hb]. cbn [step]. rewrite (update_char m ts v P).
-    cbn [spec_step chunk_ok]. rewrite P.
-    change (if memB (v_name v) (s_names s) then s_names s else s_names s ++ [v_name v])
-      with (names_add (v_name v) (s_names s)).
-    unfold ev_key in *.
-    destruct (dict m (v_name v)) as [id|] eqn:D; destruct (v_addr v) as [a|] eqn:Ad.
-    + eexists _, _. split; [reflexivity|]. split; [apply R_upd; assumption|].
-      intros _. destruct (R_dict_held _ _ _ _ HR Hn id D) as (v0 & Sm & _). rewrite Sm. reflexivity.
-    + eexists _, _. split; [reflexivity|]. split; [apply R_herr; assumption|].
-      intros _. destruct (R_dict_held _ _ _ _ HR Hn id D) as (v0 & Sm & _). rewrite Sm.
-      rewrite <- (R_lst _ _ _ HR). apply chunk_eqb_refl.
-    + assert (Sm : s_map s (v_name v) = None).
-      { pose proof (R_name _ _ _ HR _ Hn) as A. destruct (s_map s (v_name v)); [|reflexivity].
-        destruct A as (? & A & _). congruence. }
-      eexists _, _. split; [reflexivity|]. split; [apply R_new; assumption|].
-      intros _. rewrite Sm, <- (R_lst _ _ _ HR). apply chunk_eqb_refl.
-    + assert (Sm : s_map s (v_name v) = None).
-      { pose proof (R_name _ _ _ HR _ Hn) as A. destruct (s_map s (v_name v)); [|reflexivity].
-        destruct A as (? & A & _). congruence. }
-      eexists _, _. split; [reflexivity|]. split; [apply R_nerr; assumption|].
-      intros _. rewrite Sm. reflexivity.
-  - cbn [step]. destruct (advance m dt) as [m' es] eqn:A.
-    destruct (R_advance NS m s dt m' es HR A) as [HR' Ck].
-    exists m', es. split; [reflexivity|]. split; [exact HR'|]. intros _. exact Ck.
-  - cbn [step spec_step]. exists m, (find m k). split; [reflexivity|]. split; [exact HR|].
-    intros St. eapply find_chunk; eauto.
-  - cbn [step]. eexists _, _. split; [reflexivity|]. split; [apply R_addl; exact HR|].
-    intros _. reflexivity.
+    destruct (W v P) as [Hn Hb].
+    destruct (ev_sim NS NSp m s ts v HR L P Hn Hb) as (m' & es & St & HR' & Ls & Ck).
+    exists m', es. split; [exact St|]. split; [exact HR'|]. split; [rewrite Ls; exact L|exact Ck].
+  - destruct (adv_sim NS NSp m s dt HR L) as (m' & es & St & HR' & Ls & Ck).
+    exists m', es. split; [exact St|]. split; [exact HR'|]. split; [rewrite Ls; exact L|exact Ck].
+  - cbn [step spec_step]. exists m, (find m k). split; [reflexivity|]. split; [exact HR|]. split; [exact L|].
+    intros St. cbn [stale_lookup_op] in St. destruct (find_sim NS m s k HR St) as (e & Fe & Fo).
+    rewrite Fe. exact Fo.
+  - cbn [step]. eexists _, _. split; [reflexivity|]. split; [apply R_addl; exact HR|]. split.
+    + unfold add_listener. cbn [lst]. destruct (memN l (lids m)); [exact L|].
+      intros lb H. apply in_app_iff in H as [H|[<-|[]]]; [apply L; exact H|]. cbn [snd].
+      split; [exact Sc|exact W].
+    + intros _. reflexivity.
 Qed.
 
 (* ------------------------------------------------------------------------------------------ *)
 (* Part B6: whole histories *)
 
-Lemma run_sim NS h : forall m s,
-  R NS m s -> in_scope h = true -> Forall (op_within NS) h ->
+Lemma run_sim NS (NSp : plainNS NS) h : forall m s,
+  R NS m s -> Lok NS (lst m) -> in_scope h = true -> Forall (op_within NS) h ->
   exists m' tr, run_from m h = Some (m', tr) /\ R NS m' (fold_left spec_step h s) /\
     (stale_lookup_from s h = false -> oracle_from s h tr = true).
 Proof.
-  induction h as [|o h IH]; intros m s HR Sc W.
+  induction h as [|o h IH]; intros m s HR L Sc W.
   - exists m, []. split; [reflexivity|]. split; [exact HR|]. reflexivity.
   - cbn [in_scope forallb] in Sc. apply andb_true_iff in Sc as [Sco Sc].
     inversion W as [|? ? Wo W']; subst.
-    destruct (step_sim NS m s o HR Sco Wo) as (m1 & es & St & HR1 & Ck).
-    destruct (IH m1 (spec_step s o) HR1 Sc W') as (m' & tr & Rn & HR' & Or).
+    destruct (step_sim NS NSp m s o HR L Sco Wo) as (m1 & es & St & HR1 & L1 & Ck).
+    destruct (IH m1 (spec_step s o) HR1 L1 Sc W') as (m' & tr & Rn & HR' & Or).
     exists m', (es :: tr). cbn [run_from fold_left]. rewrite St, Rn. split; [reflexivity|]. split; [exact HR'|].
     cbn [stale_lookup_from oracle_from]. intros B.
     apply orb_false_iff in B as [B1 B2].
@@ -957,8 +1545,19 @@ Proof.
   induction h as [|o h IH]; intros H P; [destruct H|].
   destruct H as [->|H].
   - cbn [ev_names ev_addrs]. rewrite P. split; left; reflexivity.
-  - destruct (IH H P) as [A B]. destruct o as [ts'| | |]; cbn [ev_names ev_addrs]; try (split; assumption).
-    destruct (parse_ev ts'); split; try right; assumption.
+  - destruct (IH H P) as [A B]. destruct o as [ts'| | |l b]; cbn [ev_names ev_addrs]; try (split; assumption).
+    + destruct (parse_ev ts'); split; try right; assumption.
+    + split; [assumption|]. apply in_or_app. right. exact B.
+Qed.
+
+Lemma addl_in_addrs h l b ip : In (OAddL l b) h -> In ip (beh_keys b) -> In ip (ev_addrs h).
+Proof.
+  induction h as [|o h IH]; intros H Hi; [destruct H|].
+  destruct H as [->|H].
+  - cbn [ev_addrs]. apply in_or_app. left. exact Hi.
+  - specialize (IH H Hi). destruct o as [ts'| | |l' b']; cbn [ev_addrs]; try assumption.
+    + destruct (parse_ev ts'); [right|]; assumption.
+    + apply in_or_app. right. exact IH.
 Qed.
 
 Lemma within_of_no_collision h NS :
@@ -966,9 +1565,10 @@ Lemma within_of_no_collision h NS :
   (forall n, In n NS -> ~ In n (ev_addrs h)) ->
   Forall (op_within NS) h.
 Proof.
-  intros Sub Dis. apply Forall_forall. intros o Ho. destruct o as [ts| | |]; cbn [op_within]; auto.
-  intros v P. destruct (ev_in_names h ts v Ho P) as [A B]. split; [auto|].
-  intros C. exact (Dis _ C B).
+  intros Sub Dis. apply Forall_forall. intros o Ho. destruct o as [ts| | |l b]; cbn [op_within]; auto.
+  - intros v P. destruct (ev_in_names h ts v Ho P) as [A B]. split; [auto|].
+    intros C. exact (Dis _ C B).
+  - intros ip Hi C. exact (Dis _ C (addl_in_addrs h l b ip Ho Hi)).
 Qed.
 
 Lemma no_collision_disjoint h : key_collision h = false ->
@@ -983,34 +1583,169 @@ Proof.
   intros H. apply within_of_no_collision; [auto|]. apply no_collision_disjoint. exact H.
 Qed.
 
-(* the main theorem: outside the three finding classes the model's trace satisfies the oracle *)
+Lemma parse_name_plain ts v : parse_ev ts = Some v -> plain_bytes (v_name v) = true.
+Proof.
+  intros P. destruct (parse_agree ts v P) as (a & b & c & rest & -> & _ & _ & Na & _).
+  unfold parse_ev in P. destruct (split_pos rest) as [pos r].
+  destruct (plain_word a) eqn:Pa; cbn [andb] in P; [|discriminate].
+  rewrite <- Na. unfold plain_word in Pa. unfold plain_bytes.
+  apply andb_true_iff in Pa as [Pa P3]. apply andb_true_iff in Pa as [_ P2]. rewrite P2, P3. reflexivity.
+Qed.
+
+Lemma ev_names_plain h : plainNS (ev_names h).
+Proof.
+  induction h as [|o h IH]; intros n H; [destruct H|]. destruct o as [ts| | |]; cbn [ev_names] in H; auto.
+  destruct (parse_ev ts) as [v|] eqn:P; auto. destruct H as [<-|H]; [eapply parse_name_plain; eauto|auto].
+Qed.
+
+Lemma Lok_init NS : Lok NS (lst m0).
+Proof. intros lb []. Qed.
+
+(* the main theorem: outside the two finding classes the model's trace satisfies the oracle *)
 Lemma model_satisfies_oracle h :
   in_scope h = true -> key_collision h = false -> stale_lookup h = false ->
   exists tr, run h = Some tr /\ oracle h tr = true.
 Proof.
   intros Sc Kc Sl.
-  destruct (run_sim (ev_names h) h m0 s0 (R_init _) Sc (within_self h Kc)) as (m' & tr & Rn & _ & Or).
+  destruct (run_sim (ev_names h) (ev_names_plain h) h m0 s0 (R_init _) (Lok_init _) Sc (within_self h Kc))
+    as (m' & tr & Rn & _ & Or).
   exists tr. unfold run. rewrite Rn. split; [reflexivity|]. apply Or; assumption.
 Qed.
 
 (* ------------------------------------------------------------------------------------------ *)
-(* Part C: consequences *)
+(* Part C1: invariants of the reference semantics alone *)
 
 Lemma spec_after_app h1 h2 : spec_after (h1 ++ h2) = fold_left spec_step h2 (spec_after h1).
 Proof. unfold spec_after. apply fold_left_app. Qed.
+
+(* a held name has been mentioned *)
+Definition named (s : sst) : Prop := forall k v, s_map s k = Some v -> In k (s_names s).
+
+Lemma named_ev_step s v : named s -> named (ev_step s v).
+Proof.
+  intros H k w. unfold ev_step. cbn [s_map s_names]. rewrite In_names_add.
+  destruct (v_addr v); unfold sset, sdel; (destruct (beqb (v_name v) k) eqn:E;
+    [apply beqb_eq in E; subst; auto|intros A; right; eapply H; eauto]).
+Qed.
+
+Lemma named_script acts : forall s n, named s -> named (script_step s n acts).
+Proof.
+  induction acts as [|a r IH]; intros s n H; [exact H|].
+  destruct a; cbn [script_step act_step]; auto. apply IH. apply named_ev_step. exact H.
+Qed.
+
+Lemma named_note kd ls : forall s n, named s -> named (note_fold kd ls s n).
+Proof.
+  induction ls as [|lb r IH]; intros s n H; [exact H|]. cbn [note_fold].
+  apply IH, named_script, H.
+Qed.
+
+Lemma named_exp_one s n : named s -> named (exp_one s n).
+Proof.
+  intros H. unfold exp_one, note_step. apply named_note. intros k v. cbn [del_name s_map s_names].
+  unfold sdel. destruct (beqb n k); [discriminate|apply H].
+Qed.
+
+Lemma named_fold_exp L : forall s, named s -> named (fold_left exp_one L s).
+Proof. induction L as [|n L IH]; intros s H; [exact H|]. cbn [fold_left]. apply IH, named_exp_one, H. Qed.
+
+Lemma named_step s o : named s -> named (spec_step s o).
+Proof.
+  intros H. destruct o as [ts|dt|k|l b]; cbn [spec_step]; auto.
+  - destruct (parse_ev ts) as [v|]; [|exact H]. destruct (ev_kind s v); [unfold note_step; apply named_note|];
+      apply named_ev_step; exact H.
+  - apply named_fold_exp. exact H.
+Qed.
+
+Lemma named_after h : named (spec_after h).
+Proof.
+  unfold spec_after. assert (G : forall s, named s -> named (fold_left spec_step h s)).
+  { induction h as [|o h IH]; intros s H; [exact H|]. cbn [fold_left]. apply IH, named_step, H. }
+  apply G. intros k v. discriminate.
+Qed.
+
+(* the listeners of the reference state are those the history registered *)
+Definition lst_all (Pb : beh -> Prop) (s : sst) : Prop := forall lb, In lb (s_lst s) -> Pb (snd lb).
+
+Lemma fold_exp_lst L : forall s, s_lst (fold_left exp_one L s) = s_lst s.
+Proof.
+  induction L as [|n L IH]; intros s; [reflexivity|]. cbn [fold_left]. rewrite IH.
+  destruct (exp_one_frame s n) as (_ & A2 & _). exact A2.
+Qed.
+
+Lemma spec_step_lst s o : s_lst (spec_step s o) =
+  match o with OAddL l b => if memN l (ids s) then s_lst s else s_lst s ++ [(l, b)] | _ => s_lst s end.
+Proof.
+  destruct o as [ts|dt|k|l b]; cbn [spec_step]; try reflexivity.
+  - destruct (parse_ev ts) as [v|]; [|reflexivity]. destruct (ev_kind s v); [|reflexivity].
+    unfold note_step. destruct (note_fold_frame k (s_lst (ev_step s v)) (ev_step s v) (v_name v)) as (_ & A2 & _).
+    exact A2.
+  - rewrite fold_exp_lst. reflexivity.
+Qed.
+
+Lemma lst_after (Pb : beh -> Prop) h : (forall l b, In (OAddL l b) h -> Pb b) -> lst_all Pb (spec_after h).
+Proof.
+  unfold spec_after.
+  assert (G : forall s, lst_all Pb s -> (forall l b, In (OAddL l b) h -> Pb b) -> lst_all Pb (fold_left spec_step h s)).
+  { induction h as [|o h IH]; intros s H Hb; [exact H|]. cbn [fold_left]. apply IH.
+    - intros lb Hl. rewrite spec_step_lst in Hl. destruct o as [ts|dt|k|l b]; try (apply H; exact Hl).
+      destruct (memN l (ids s)); [apply H; exact Hl|]. apply in_app_iff in Hl as [Hl|[<-|[]]]; [apply H; exact Hl|].
+      cbn [snd]. apply (Hb l b). left. reflexivity.
+    - intros l b Hl. apply (Hb l b). right. exact Hl. }
+  intros Hb. apply G; [intros lb []|exact Hb].
+Qed.
+
+Lemma in_scope_addl h l b : in_scope h = true -> In (OAddL l b) h -> beh_ok b = true.
+Proof. intros Sc H. unfold in_scope in Sc. rewrite forallb_forall in Sc. exact (Sc _ H). Qed.
+
+Lemma feedless_addl h l b : feedless h = true -> In (OAddL l b) h -> beh_keys b = [].
+Proof.
+  induction h as [|o h IH]; intros F H; [destruct H|]. destruct H as [->|H].
+  - cbn [feedless] in F. apply andb_true_iff in F as [F _]. destruct (beh_keys b); [reflexivity|discriminate].
+  - apply IH; [|exact H]. destruct o; cbn [feedless] in F; try exact F. apply andb_true_iff in F as [_ F]. exact F.
+Qed.
+
+Lemma exp_ok_after h : in_scope h = true -> exp_ok (s_lst (spec_after h)).
+Proof.
+  intros Sc lb Hl. pose proof (lst_after (fun b => beh_ok b = true) h (fun l b => in_scope_addl h l b Sc) lb Hl) as A.
+  cbn beta in A. unfold beh_ok in A. apply andb_true_iff in A as [_ A]. exact A.
+Qed.
+
+(* listeners that feed nothing leave the reference state alone *)
+Lemma script_step_nofeed acts : feed_keys acts = [] -> forall s n, script_step s n acts = s.
+Proof.
+  induction acts as [|a r IH]; intros F s n; [reflexivity|].
+  destruct a; cbn [script_step act_step]; try reflexivity; try (apply IH; exact F).
+  unfold feed_keys in F. cbn [flat_map app] in F. discriminate.
+Qed.
+
+Lemma note_fold_nofeed kd ls : (forall lb, In lb ls -> beh_keys (snd lb) = []) -> forall s n, note_fold kd ls s n = s.
+Proof.
+  induction ls as [|lb r IH]; intros F s n; [reflexivity|]. cbn [note_fold].
+  assert (E : feed_keys (script_of kd (snd lb)) = []).
+  { pose proof (F lb (or_introl eq_refl)) as A. unfold beh_keys in A. apply app_eq_nil in A as [A1 A2].
+    destruct kd; assumption. }
+  rewrite (script_step_nofeed _ E).
+  apply IH. intros x Hx. apply F. right. exact Hx.
+Qed.
+
+(* ------------------------------------------------------------------------------------------ *)
+(* Part C2: consequences *)
 
 Lemma state_R h m : in_scope h = true -> key_collision h = false -> state_after h = Some m ->
   R (ev_names h) m (spec_after h).
 Proof.
   intros Sc Kc St.
-  destruct (run_sim (ev_names h) h m0 s0 (R_init _) Sc (within_self h Kc)) as (m' & tr & Rn & HR & _).
+  destruct (run_sim (ev_names h) (ev_names_plain h) h m0 s0 (R_init _) (Lok_init _) Sc (within_self h Kc))
+    as (m' & tr & Rn & HR & _).
   unfold state_after in St. rewrite Rn in St. cbn in St. injection St as <-. exact HR.
 Qed.
 
 Lemma state_exists h : in_scope h = true -> key_collision h = false -> exists m, state_after h = Some m.
 Proof.
   intros Sc Kc.
-  destruct (run_sim (ev_names h) h m0 s0 (R_init _) Sc (within_self h Kc)) as (m' & tr & Rn & _ & _).
+  destruct (run_sim (ev_names h) (ev_names_plain h) h m0 s0 (R_init _) (Lok_init _) Sc (within_self h Kc))
+    as (m' & tr & Rn & _ & _).
   exists m'. unfold state_after. rewrite Rn. reflexivity.
 Qed.
 
@@ -1043,13 +1778,24 @@ Proof.
   destruct (s_map (spec_after h) n) as [v|]; [|reflexivity]. rewrite Nd. reflexivity.
 Qed.
 
-(* once time has passed nothing is stale *)
-Lemma after_advance_fresh h dt n :
+(* once time has passed nothing is stale, whatever the listeners fed from inside their callbacks *)
+Lemma after_advance_fresh h dt n : in_scope h = true ->
   due_in (s_now (spec_after (h ++ [OAdvance dt]))) (s_map (spec_after (h ++ [OAdvance dt]))) n = false.
 Proof.
-  rewrite spec_after_app. cbn [fold_left spec_step s_now s_map]. unfold due_in, sweep.
-  destruct (s_map (spec_after h) n) as [v|]; [|reflexivity].
-  destruct (due_exp (s_now (spec_after h) + Z.of_N dt) (m_exp v)) eqn:E; [reflexivity|exact E].
+  intros Sc. rewrite spec_after_app. cbn [fold_left spec_step].
+  set (s1 := bump_s (spec_after h) dt).
+  assert (Nm : named s1) by (intros k v; apply (named_after h)).
+  assert (Ok : exp_ok (s_lst s1)) by (apply (exp_ok_after h Sc)).
+  assert (Sub1 : forall x, In x (due_names s1) -> In x (s_names s1)).
+  { intros x H. unfold due_names in H. apply filter_In in H. apply H. }
+  destruct (fold_exp_char (due_names s1) s1 Sub1) as (B1 & _ & _ & B4).
+  rewrite B1. unfold due_in. rewrite B4. destruct (memB n (due_names s1)) eqn:Mb.
+  - pose proof (exp_one_due s1 n n Ok) as A. rewrite beqb_refl in A. exact A.
+  - destruct (s_map s1 n) as [v|] eqn:Sm; [|reflexivity].
+    destruct (due_exp (s_now s1) (m_exp v)) eqn:Du; [|reflexivity].
+    assert (In n (due_names s1)).
+    { unfold due_names. apply filter_In. split; [eapply Nm; eauto|]. unfold due_in. rewrite Sm. exact Du. }
+    apply memB_In in H. congruence.
 Qed.
 
 (* whatever key is looked up (name or address), a mapping that is returned is live: the latest
@@ -1086,22 +1832,54 @@ Qed.
 
 Lemma ev_addrs_app h1 h2 : ev_addrs (h1 ++ h2) = ev_addrs h1 ++ ev_addrs h2.
 Proof.
-  induction h1 as [|o h1 IH]; [reflexivity|]. destruct o as [ts| | |]; cbn [app ev_addrs]; try exact IH.
-  destruct (parse_ev ts); [cbn [app]; f_equal|]; exact IH.
+  induction h1 as [|o h1 IH]; [reflexivity|]. destruct o as [ts| | |l b]; cbn [app ev_addrs]; try exact IH.
+  - destruct (parse_ev ts); [cbn [app]; f_equal|]; exact IH.
+  - rewrite IH, app_assoc. reflexivity.
 Qed.
 
 Lemma key_collision_adv h dt : key_collision (h ++ [OAdvance dt]) = key_collision h.
 Proof. unfold key_collision. rewrite ev_names_app, ev_addrs_app. cbn [ev_names ev_addrs]. rewrite !app_nil_r. reflexivity. Qed.
 
+(* ---- with listeners that feed nothing: one event, one advance, in closed form ---- *)
+Definition nofeed (s : sst) : Prop := forall lb, In lb (s_lst s) -> beh_keys (snd lb) = [].
+
+Lemma nofeed_after h : feedless h = true -> nofeed (spec_after h).
+Proof. intros F. exact (lst_after (fun b => beh_keys b = []) h (fun l b => feedless_addl h l b F)). Qed.
+
+Lemma ev_nofeed s ts v : nofeed s -> parse_ev ts = Some v -> spec_step s (OEv ts) = ev_step s v.
+Proof.
+  intros NF P. cbn [spec_step]. rewrite P. destruct (ev_kind s v); [|reflexivity].
+  unfold note_step. apply note_fold_nofeed. exact NF.
+Qed.
+
+Lemma adv_nofeed s dt k : nofeed s -> named s ->
+  s_map (spec_step s (OAdvance dt)) k =
+  if due_in (s_now s + Z.of_N dt) (s_map s) k then None else s_map s k.
+Proof.
+  intros NF Nm. cbn [spec_step]. set (s1 := bump_s s dt).
+  assert (Sub1 : forall x, In x (due_names s1) -> In x (s_names s1)).
+  { intros x H. unfold due_names in H. apply filter_In in H. apply H. }
+  destruct (fold_exp_char (due_names s1) s1 Sub1) as (_ & _ & _ & B4). rewrite B4.
+  change (due_in (s_now s + Z.of_N dt) (s_map s) k) with (due_in (s_now s1) (s_map s1) k).
+  destruct (memB k (due_names s1)) eqn:Mb.
+  - apply memB_In in Mb. unfold due_names in Mb. apply filter_In in Mb as [_ Du]. rewrite Du.
+    unfold exp_one, note_step. rewrite note_fold_nofeed by exact NF. cbn [del_name s_map]. apply sdel_same.
+  - destruct (due_in (s_now s1) (s_map s1) k) eqn:Du; [|reflexivity]. exfalso.
+    assert (In k (due_names s1)).
+    { unfold due_names. apply filter_In. split; [|exact Du]. unfold due_in in Du.
+      destruct (s_map s1 k) as [v|] eqn:Sm; [|discriminate]. exact (Nm k v Sm). }
+    apply memB_In in H. congruence.
+Qed.
+
 (* a later event for the same name replaces the address and moves the expiry to the new time,
    earlier or later, however far away: after it, and dt ticks, the name is found iff t > now + dt *)
 Lemma expiry_moves h ts n a t dt m :
-  in_scope h = true -> key_collision (h ++ [OEv ts]) = false ->
+  in_scope h = true -> key_collision (h ++ [OEv ts]) = false -> feedless h = true ->
   parse_ev ts = Some {| v_name := n; v_addr := Some a; v_exp := XAt t |} ->
   state_after (h ++ [OEv ts; OAdvance dt]) = Some m ->
   find m n = if (t <=? s_now (spec_after h) + Z.of_N dt)%Z then [ENotFound] else [EFound n a (Some t)].
 Proof.
-  intros Sc Kc P St.
+  intros Sc Kc Fl P St.
   change (h ++ [OEv ts; OAdvance dt]) with (h ++ [OEv ts] ++ [OAdvance dt]) in St. rewrite app_assoc in St.
   assert (Sc' : in_scope ((h ++ [OEv ts]) ++ [OAdvance dt]) = true).
   { rewrite !in_scope_app, Sc. cbn. rewrite P. reflexivity. }
@@ -1109,12 +1887,18 @@ Proof.
   assert (Hn : In n (ev_names ((h ++ [OEv ts]) ++ [OAdvance dt]))).
   { rewrite !ev_names_app. cbn [ev_names]. rewrite P. apply in_or_app. left. apply in_or_app. right. left. reflexivity. }
   rewrite (find_name_held _ n m Sc' Kc' Hn St).
-  rewrite !spec_after_app. cbn [fold_left spec_step]. rewrite P. cbn [v_name v_addr v_exp s_now s_map].
-  unfold sweep, sset. rewrite beqb_refl. cbn [m_exp due_exp m_ip exp_opt].
-  destruct (t <=? s_now (spec_after h) + Z.of_N dt)%Z; reflexivity.
+  rewrite spec_after_app. cbn [fold_left].
+  assert (E : spec_after (h ++ [OEv ts]) = ev_step (spec_after h) {| v_name := n; v_addr := Some a; v_exp := XAt t |}).
+  { rewrite spec_after_app. cbn [fold_left]. apply ev_nofeed; [apply nofeed_after; exact Fl|exact P]. }
+  rewrite adv_nofeed.
+  - rewrite E. unfold ev_step, due_in. cbn [s_now s_map v_name v_addr v_exp]. unfold sset. rewrite beqb_refl.
+    cbn [m_exp due_exp m_ip exp_opt]. destruct (t <=? s_now (spec_after h) + Z.of_N dt)%Z; reflexivity.
+  - rewrite E. intros lb Hl. exact (nofeed_after h Fl lb Hl).
+  - apply named_after.
 Qed.
 
-(* never-expiring mappings persist: through any later operations that do not mention the name *)
+(* never-expiring mappings persist: through any later operations that do not mention the name,
+   whatever the listeners do in their callbacks *)
 Definition not_about (n : bytes) (o : op) : Prop :=
   match o with OEv ts => forall v, parse_ev ts = Some v -> v_name v <> n | _ => True end.
 
@@ -1123,10 +1907,20 @@ Lemma never_stays n a h2 : Forall (not_about n) h2 -> forall s,
   s_map (fold_left spec_step h2 s) n = Some {| m_ip := a; m_exp := XNever |}.
 Proof.
   induction 1 as [|o h2 Ho _ IH]; intros s Sm; [exact Sm|]. cbn [fold_left]. apply IH.
-  destruct o as [ts|dt|k|l]; cbn [spec_step]; try exact Sm.
-  - destruct (parse_ev ts) as [v|] eqn:P; [|exact Sm]. cbn [s_map].
-    specialize (Ho v P). destruct (v_addr v); unfold sset, sdel; rewrite (beqb_neq_false _ _ Ho); exact Sm.
-  - cbn [s_map]. unfold sweep. rewrite Sm. reflexivity.
+  destruct o as [ts|dt|k|l b]; cbn [spec_step]; try exact Sm.
+  - destruct (parse_ev ts) as [v|] eqn:P; [|exact Sm]. specialize (Ho v P).
+    assert (E : s_map (ev_step s v) n = s_map s n).
+    { unfold ev_step. cbn [s_map]. destruct (v_addr v); unfold sset, sdel; rewrite (beqb_neq_false _ _ Ho); reflexivity. }
+    destruct (ev_kind s v) as [kd|]; [|rewrite E; exact Sm]. unfold note_step.
+    destruct (note_fold_frame kd (s_lst (ev_step s v)) (ev_step s v) (v_name v)) as (_ & _ & A3 & _).
+    rewrite A3 by (intros X; apply Ho; symmetry; exact X). rewrite E. exact Sm.
+  - set (s1 := bump_s s dt).
+    assert (Sub1 : forall x, In x (due_names s1) -> In x (s_names s1)).
+    { intros x H. unfold due_names in H. apply filter_In in H. apply H. }
+    destruct (fold_exp_char (due_names s1) s1 Sub1) as (_ & _ & _ & B4). rewrite B4.
+    destruct (memB n (due_names s1)) eqn:Mb; [|exact Sm]. exfalso.
+    apply memB_In in Mb. unfold due_names in Mb. apply filter_In in Mb as [_ Du].
+    unfold due_in in Du. change (s_map s1 n) with (s_map s n) in Du. rewrite Sm in Du. discriminate.
 Qed.
 
 Lemma never_persists h ts n a h2 m :
@@ -1142,23 +1936,47 @@ Proof.
   rewrite (find_name_held _ n m Sc Kc Hn St).
   change (h ++ OEv ts :: h2) with (h ++ [OEv ts] ++ h2). rewrite app_assoc, !spec_after_app.
   rewrite (never_stays n a h2 NA); [reflexivity|].
-  cbn [fold_left spec_step]. rewrite P. cbn [s_map v_name v_addr v_exp]. unfold sset. rewrite beqb_refl. reflexivity.
+  cbn [fold_left spec_step]. rewrite P.
+  set (s := spec_after h). set (v := {| v_name := n; v_addr := Some a; v_exp := XNever |}).
+  assert (E : s_map (ev_step s v) n = Some {| m_ip := a; m_exp := XNever |}).
+  { unfold ev_step, v. cbn [s_map v_name v_addr v_exp]. unfold sset. rewrite beqb_refl. reflexivity. }
+  assert (Ek : ev_kind s v = None \/ ev_kind s v = Some KAdded).
+  { unfold ev_kind, v. cbn [v_addr v_name]. destruct (s_map s n); auto. }
+  destruct Ek as [Ek|Ek]; rewrite Ek; [exact E|].
+  (* a new name: the listeners' added-scripts feed nothing (envelope) *)
+  assert (Sc0 : in_scope h = true) by (rewrite in_scope_app in Sc; apply andb_true_iff in Sc; apply Sc).
+  unfold note_step. change (s_lst (ev_step s v)) with (s_lst s).
+  assert (G : forall ls s1, (forall lb, In lb ls -> beh_ok (snd lb) = true) ->
+              s_map s1 n = Some {| m_ip := a; m_exp := XNever |} ->
+              s_map (note_fold KAdded ls s1 n) n = Some {| m_ip := a; m_exp := XNever |}).
+  { induction ls as [|lb r IHr]; intros s1 Okl S1; [exact S1|]. cbn [note_fold script_of].
+    assert (F : script_step s1 n (b_added (snd lb)) = s1).
+    { pose proof (Okl lb (or_introl eq_refl)) as A. unfold beh_ok in A. apply andb_true_iff in A as [A _].
+      clear -A. revert s1. induction (b_added (snd lb)) as [|x acts IHa]; intros s1; [reflexivity|].
+      cbn [forallb] in A. apply andb_true_iff in A as [Ax A].
+      destruct x; cbn [script_step act_step]; try reflexivity; try (apply IHa; exact A).
+      cbn in Ax. discriminate. }
+    rewrite F.
+    apply IHr; auto. intros x Hx. apply Okl. right. exact Hx. }
+  apply G; [|exact E].
+  exact (lst_after (fun b => beh_ok b = true) h (fun l b => in_scope_addl h l b Sc0)).
 Qed.
 
-(* error mappings are dropped at once *)
+(* error mappings are dropped at once (listeners that feed nothing: a listener that answers the
+   'expired' call with a newer mapping makes the name findable again, rightly) *)
 Lemma error_dropped h ts n x m :
-  in_scope h = true -> key_collision (h ++ [OEv ts]) = false ->
+  in_scope h = true -> key_collision (h ++ [OEv ts]) = false -> feedless h = true ->
   parse_ev ts = Some {| v_name := n; v_addr := None; v_exp := x |} ->
   state_after (h ++ [OEv ts]) = Some m ->
   find m n = [ENotFound].
 Proof.
-  intros Sc Kc P St.
+  intros Sc Kc Fl P St.
   assert (Sc' : in_scope (h ++ [OEv ts]) = true) by (rewrite in_scope_app, Sc; cbn; rewrite P; reflexivity).
   assert (Hn : In n (ev_names (h ++ [OEv ts]))).
   { rewrite ev_names_app. cbn [ev_names]. rewrite P. apply in_or_app. right. left. reflexivity. }
   rewrite (find_name_held _ n m Sc' Kc Hn St).
-  rewrite spec_after_app. cbn [fold_left spec_step]. rewrite P. cbn [s_map v_name v_addr]. unfold sdel.
-  rewrite beqb_refl. reflexivity.
+  rewrite spec_after_app. cbn [fold_left]. rewrite (ev_nofeed _ ts _ (nofeed_after h Fl) P).
+  unfold ev_step. cbn [s_map v_name v_addr]. rewrite sdel_same. reflexivity.
 Qed.
 
 (* ---- the full-strength statement is false of the faithful model: two witnesses.
@@ -1170,14 +1988,21 @@ Definition X (t : Z) : tok := {| t_pre := w_EXPIRES; t_time := Some t |}.
 Definition n_a : list N := [97;46;99;111;109].          (* a.com *)
 Definition n_b : list N := [98;46;99;111;109].          (* b.com *)
 Definition ip1 : list N := [49;48;46;48;46;48;46;49].   (* 10.0.0.1 *)
+Definition ip2 : list N := [49;48;46;48;46;48;46;50].   (* 10.0.0.2 *)
+Definition passive_l : beh := {| b_added := []; b_expired := [] |}.
 
 Definition wit_unheld_error : list op :=
-  [OAddL 1; OEv [W n_a; {| t_pre := w_ERROR; t_time := None |}; T 80; W [101;114;114;111;114;61;121;101;115]; X 80]].
+  [OAddL 1 passive_l; OEv [W n_a; {| t_pre := w_ERROR; t_time := None |}; T 80; W [101;114;114;111;114;61;121;101;115]; X 80]].
 Definition wit_collision : list op :=
   [OEv [W n_a; W n_b; {| t_pre := w_NEVER; t_time := None |}]; OEv [W n_b; W ip1; T 40; X 40];
    OAdvance 40; OFind (str n_a)].
 Definition wit_stale : list op :=
   [OAdvance 800; OEv [W n_a; W ip1; T 720; X 720]; OFind (str n_a)].
+(* listener 1 raises inside addrmap_expired: listener 2 must still hear that a.com expired.  The
+   witness of C20-F4 (repaired in /repo a2f579a): the oracle now ACCEPTS the model's trace (starve_accepted) *)
+Definition wit_starve : list op :=
+  [OAddL 1 {| b_added := []; b_expired := [ARaise] |}; OAddL 2 passive_l;
+   OEv [W n_a; W ip1; T 80; X 80]; OAdvance 80].
 
 Definition refutes (h : list op) : bool :=
   in_scope h && match run h with Some tr => negb (oracle h tr) | None => false end.
@@ -1188,7 +2013,6 @@ Proof. vm_compute. auto. Qed.
 Lemma stale_refuted :
   refutes wit_stale = true /\ key_collision wit_stale = false.
 Proof. vm_compute. auto. Qed.
-
 Lemma refutes_elim h : refutes h = true ->
   in_scope h = true /\ exists tr, run h = Some tr /\ oracle h tr = false.
 Proof.
@@ -1212,8 +2036,16 @@ Proof.
   destruct (refutes_elim _ A) as [A1 A2]. auto.
 Qed.
 
+(* the former witness of C20-F4 is now inside the proved class: both listeners hear the expiry *)
+Lemma starve_accepted :
+  in_scope wit_starve = true /\ key_collision wit_starve = false /\ stale_lookup wit_starve = false /\
+  run wit_starve = Some [[]; []; [EAdded 1 (str n_a) (str ip1); EAdded 2 (str n_a) (str ip1)];
+                         [EExpired 1 (str n_a); ESub ERaised; EExpired 2 (str n_a)]] /\
+  match run wit_starve with Some tr => oracle wit_starve tr | None => false end = true.
+Proof. vm_compute. auto 6. Qed.
+
 (* the former witness of C20-F1 is now inside the proved class *)
 Lemma unheld_error_accepted :
   in_scope wit_unheld_error = true /\ key_collision wit_unheld_error = false /\ stale_lookup wit_unheld_error = false /\
   run wit_unheld_error = Some [[]; []].
-Proof. vm_compute. auto. Qed.
+Proof. vm_compute. auto 6. Qed.
